@@ -159,19 +159,32 @@ Record Own (s : kstate) (U : list nat) : Prop := {
   own_inj : forall x y n m, In x U -> In y U -> dnode s x = Ok n -> dnode s y = Ok m -> sn_fwd n = sn_fwd m -> x = y
 }.
 
-Record SGood (s : kstate) (C0 : list nat) : Prop := {
-  sg_hdr : exists h, dnode s HEADER = Ok h /\ sn_key h = None /\ sn_ref h = 1;
-  sg_node : forall id, In id C0 -> exists n k, dnode s id = Ok n /\ sn_key n = Some k /\ sn_ref n = 1 /\
+(* RP id r : the reference count r allowed for the linked node id (C17: r = 1; C18: 1 + parked iterators).
+   Zs : removed nodes that are kept only by parked iterators ("zombies"); ZP z n : what is known about them.
+   They own their forward arrays like every other node, are not linked, and are not the header. *)
+Record SGood (RP : nat -> nat -> Prop) (ZP : nat -> snode -> Prop) (Zs : list nat) (s : kstate) (C0 : list nat) : Prop := {
+  sg_hdr : exists h, dnode s HEADER = Ok h /\ sn_key h = None /\ RP HEADER (sn_ref h);
+  sg_node : forall id, In id C0 -> exists n k, dnode s id = Ok n /\ sn_key n = Some k /\ RP id (sn_ref n) /\
                                        (0 <= sn_level n <= k_level s)%Z /\ id <> HEADER;
-  sg_own : Own s (HEADER :: C0);
+  sg_own : Own s (HEADER :: C0 ++ Zs);
+  sg_z : forall z, In z Zs -> (exists n, dnode s z = Ok n /\ ZP z n) /\ z <> HEADER /\ ~ In z C0;
   sg_sorted : StronglySorted (klt s) C0;
   sg_linked : forall l, l <= LEVEL_MAX -> Linked s l HEADER (chain s C0 l);
   sg_level : (-1 <= k_level s <= 8)%Z;
   sg_length : k_length s = wrap64 (Z.of_nat (length C0));
-  sg_iters : k_iters s = [];
   sg_alive : k_alive s = true;
   sg_hlvl : forall h, dnode s HEADER = Ok h -> (0 <= sn_level h)%Z
 }.
+
+Section RPS.
+Variable RP : nat -> nat -> Prop.
+Variable ZP : nat -> snode -> Prop.
+Variable Zs : list nat.
+Hypothesis RP_pos : forall id r, RP id r -> 1 <= r.
+Local Notation SG := (SGood RP ZP Zs).
+
+Lemma ref_pos_eqb : forall r, 1 <= r -> Nat.eqb r 0 = false.
+Proof. intros. apply Nat.eqb_neq. lia. Qed.
 
 Lemma chain_app : forall s a b l, chain s (a ++ b) l = chain s a l ++ chain s b l.
 Proof. intros. unfold chain. apply filter_app. Qed.
@@ -184,11 +197,11 @@ Definition Pos (s : kstate) (C0 : list nat) (k : key) (l : nat) (cur : nat) (T :
   exists pre, C0 = pre ++ T /\ (forall x, In x pre -> key_ltb (nkey s x) k = true) /\
               ((cur = HEADER /\ pre = []) \/ (exists pre', pre = pre' ++ [cur] /\ at_level s l cur = true)).
 
-Lemma pos_linked : forall s C0 k l cur T, SGood s C0 -> l <= LEVEL_MAX -> Pos s C0 k l cur T -> Linked s l cur (chain s T l).
+Lemma pos_linked : forall s C0 k l cur T, SG s C0 -> l <= LEVEL_MAX -> Pos s C0 k l cur T -> Linked s l cur (chain s T l).
 Proof.
   intros s C0 k l cur T G Hl [pre [E [_ [[H1 H2]|[pre' [H1 H2]]]]]].
-  - subst. apply (sg_linked _ _ G l Hl).
-  - generalize (sg_linked _ _ G l Hl). rewrite E, H1. rewrite !chain_app. simpl. unfold chain at 2. simpl. rewrite H2.
+  - subst. apply (sg_linked _ _ _ _ _ G l Hl).
+  - generalize (sg_linked _ _ _ _ _ G l Hl). rewrite E, H1. rewrite !chain_app. simpl. unfold chain at 2. simpl. rewrite H2.
     intro L. eapply linked_suffix. exact L. rewrite <- app_assoc. simpl. reflexivity.
 Qed.
 
@@ -264,7 +277,7 @@ Proof.
 Qed.
 
 Lemma search_ok : forall m fuel s C0 stop k cur T l u,
-  SGood s C0 -> l <= LEVEL_MAX -> Pos s C0 k l cur T -> length T + l <= m -> m + 2 <= fuel ->
+  SG s C0 -> l <= LEVEL_MAX -> Pos s C0 k l cur T -> length T + l <= m -> m + 2 <= fuel ->
   exists R, search fuel s stop k cur (Z.of_nat l) u = Ok R /\
     ((stop = true /\ exists y, fst (fst R) = Some y /\ In y T /\ nkey s y = k) \/
      (SearchRes s C0 k l u R /\ (stop = true -> forall y, In y C0 -> nkey s y <> k))).
@@ -287,7 +300,7 @@ Proof.
     generalize (pos_linked s C0 k l cur T G Hl P). intro LK. rewrite (linked_head _ _ _ _ LK). cbn [bind].
     destruct P as [pre [E [A B]]].
     assert (ST : StronglySorted (klt s) (chain s T l)).
-    { apply ss_filter. eapply ss_app_r. rewrite <- E. apply (sg_sorted _ _ G). }
+    { apply ss_filter. eapply ss_app_r. rewrite <- E. apply (sg_sorted _ _ _ _ _ G). }
     (* the continuation "next level" *)
     assert (NEXT : (forall y, In y (chain s T l) -> key_ltb (nkey s y) k = false) ->
       (stop = true -> forall y, In y (chain s T l) -> nkey s y <> k) ->
@@ -321,12 +334,12 @@ Proof.
     + (* the forward node y *)
       assert (YT : In y T). { assert (In y (chain s T l)) by (rewrite CH; left; auto). unfold chain in H. apply filter_In in H. apply H. }
       assert (YC : In y C0) by (rewrite E; apply in_or_app; auto).
-      destruct (sg_node _ _ G y YC) as [n [ky [N1 [N2 _]]]]. rewrite N1. cbn [bind]. rewrite N2.
+      destruct (sg_node _ _ _ _ _ G y YC) as [n [ky [N1 [N2 _]]]]. rewrite N1. cbn [bind]. rewrite N2.
       assert (KY : nkey s y = ky) by (eapply nkey_some; eauto).
       destruct (key_ltb ky k) eqn:LT.
       * (* advance to y *)
         destruct (filter_cons_split _ _ _ _ CH) as [t1 [t2 [YS [F1 [F2 AY]]]]].
-        assert (SST : StronglySorted (klt s) T) by (eapply ss_app_r; rewrite <- E; apply (sg_sorted _ _ G)).
+        assert (SST : StronglySorted (klt s) T) by (eapply ss_app_r; rewrite <- E; apply (sg_sorted _ _ _ _ _ G)).
         destruct (IHm fuel s C0 stop k y t2 l ((l, y) :: u) G Hl) as [R [R1 R2]]; try lia.
         { exists (pre ++ t1 ++ [y]). split. rewrite E, YS. rewrite <- !app_assoc. reflexivity. split.
           - intros x Hx. apply in_app_or in Hx. destruct Hx as [Hx|Hx]; auto. apply in_app_or in Hx. destruct Hx as [Hx|[Hx|[]]].
@@ -383,13 +396,13 @@ Proof.
   intros s l SS. induction SS; constructor; auto.
   intro Q. eapply Forall_forall in H; eauto. unfold klt in H. rewrite key_ltb_irrefl in H. discriminate.
 Qed.
-Lemma sgood_nodup : forall s C0, SGood s C0 -> NoDup C0.
-Proof. intros. eapply ss_klt_nodup. apply (sg_sorted _ _ H). Qed.
+Lemma sgood_nodup : forall s C0, SG s C0 -> NoDup C0.
+Proof. intros. eapply ss_klt_nodup. apply (sg_sorted _ _ _ _ _ H). Qed.
 
-Lemma sgood_len : forall s C0, SGood s C0 -> length C0 <= length (k_nodes s).
+Lemma sgood_len : forall s C0, SG s C0 -> length C0 <= length (k_nodes s).
 Proof.
   intros. apply nodup_bounded_length. eapply sgood_nodup; eauto.
-  intros x Hx. destruct (sg_node _ _ H x Hx) as [n [k [N _]]]. eapply dnode_lt; eauto.
+  intros x Hx. destruct (sg_node _ _ _ _ _ H x Hx) as [n [k [N _]]]. eapply dnode_lt; eauto.
 Qed.
 
 Lemma ss_key_inj : forall s C0 x y, StronglySorted (klt s) C0 -> In x C0 -> In y C0 -> nkey s x = nkey s y -> x = y.
@@ -399,23 +412,23 @@ Proof.
   - eapply Forall_forall in H; eauto. unfold klt in H. rewrite H2, key_ltb_irrefl in H. discriminate.
   - eapply Forall_forall in H; eauto. unfold klt in H. rewrite <- H2, key_ltb_irrefl in H. discriminate.
 Qed.
-Lemma sgood_key_inj : forall s C0 x y, SGood s C0 -> In x C0 -> In y C0 -> nkey s x = nkey s y -> x = y.
-Proof. intros. eapply ss_key_inj; eauto. apply (sg_sorted _ _ H). Qed.
+Lemma sgood_key_inj : forall s C0 x y, SG s C0 -> In x C0 -> In y C0 -> nkey s x = nkey s y -> x = y.
+Proof. intros. eapply ss_key_inj; eauto. apply (sg_sorted _ _ _ _ _ H). Qed.
 
 Definition TopRes (s : kstate) (C0 : list nat) (k : key) (R : option nat * nat * upd_vec) : Prop :=
   exists c u', R = (None, c, u') /\ LevelFact s C0 k 0 c /\
     (forall l', (Z.of_nat l' <= k_level s)%Z -> exists x, uv_get u' l' = Some x /\ LevelFact s C0 k l' x) /\
     (forall l', (k_level s < Z.of_nat l')%Z -> uv_get u' l' = None).
 
-Lemma search_top : forall s C0 stop k, SGood s C0 ->
+Lemma search_top : forall s C0 stop k, SG s C0 ->
   exists R, search (search_fuel s) s stop k HEADER (k_level s) [] = Ok R /\
     ((stop = true /\ exists y, fst (fst R) = Some y /\ In y C0 /\ nkey s y = k) \/
      (TopRes s C0 k R /\ (stop = true -> forall y, In y C0 -> nkey s y <> k))).
 Proof.
-  intros s C0 stop k G. generalize (sg_level _ _ G). intro LV.
+  intros s C0 stop k G. generalize (sg_level _ _ _ _ _ G). intro LV.
   destruct (Z_lt_dec (k_level s) 0) as [NEG|POS].
   - (* empty list, level -1 *)
-    assert (C0 = []). { destruct C0; auto. destruct (sg_node _ _ G n) as [m [k0 [_ [_ [_ [Q _]]]]]]. left; auto. lia. }
+    assert (C0 = []). { destruct C0; auto. destruct (sg_node _ _ _ _ _ G n) as [m [k0 [_ [_ [_ [Q _]]]]]]. left; auto. lia. }
     subst C0. unfold search_fuel. destruct (12 * (length (k_nodes s) + 2)) eqn:FU; [lia|]. cbn [search]. replace (Z.ltb (k_level s) 0) with true by (symmetry; apply Z.ltb_lt; auto).
     eexists. split; [reflexivity|]. right. split.
     + exists HEADER, []. split; auto. split.
@@ -452,7 +465,9 @@ Definition kstep_ok (rc : Z * Z * Z) (s : kstate) (C0 : list nat) (o : op) (orc 
   exists s' C0' x x' ns,
     k_step kv_fixed rc s o orc = Ok (s', x, ns) /\
     a_step skip_before (rc4s rc) (kabs s C0) o = (kabs s' C0', x', ns) /\
-    x = out_wrap x' /\ (SGood s' C0' \/ k_alive s' = false).
+    x = out_wrap x' /\
+    ((SG s' C0' /\ k_iters s' = k_iters s /\ k_used s' = k_used s /\
+      (forall y n, In y C0 -> dnode s y = Ok n -> sn_ref n <> 1 -> In y C0')) \/ k_alive s' = false).
 
 Lemma sent_key : forall s id, re_key (sent s id) = nkey s id.
 Proof. intros. unfold sent, nkey. destruct (dnode s id); auto. Qed.
@@ -467,7 +482,7 @@ Proof.
   - destruct H0. subst. congruence. apply IHl; auto.
 Qed.
 
-Lemma find_live_sent : forall s C0 k, SGood s C0 ->
+Lemma find_live_sent : forall s C0 k, SG s C0 ->
   (forall y, In y C0 -> nkey s y = k -> find_live (map (sent s) C0) k = Some (sent s y)) /\
   ((forall y, In y C0 -> nkey s y <> k) -> find_live (map (sent s) C0) k = None).
 Proof.
@@ -492,27 +507,32 @@ Definition same_shape (n n' : snode) : Prop :=
   sn_key n' <> None /\ sn_level n' = sn_level n /\ sn_ref n' = sn_ref n /\ sn_fwd n' = sn_fwd n /\
   (match sn_key n, sn_key n' with Some a, Some b => a = b | None, None => True | _, _ => False end).
 
-Lemma sgood_put_node : forall s C0 id n n', SGood s C0 -> (id = HEADER \/ In id C0) -> dnode s id = Ok n ->
-  sn_level n' = sn_level n -> sn_ref n' = sn_ref n -> sn_fwd n' = sn_fwd n -> sn_key n' = sn_key n ->
-  SGood (put_node s id n') C0.
+Lemma sgood_put_gen : forall (RP' : nat -> nat -> Prop) (ZP' : nat -> snode -> Prop) s C0 id n n', SG s C0 -> In id (HEADER :: C0 ++ Zs) -> dnode s id = Ok n ->
+  sn_fwd n' = sn_fwd n -> sn_key n' = sn_key n ->
+  (In id (HEADER :: C0) -> sn_level n' = sn_level n /\ RP' id (sn_ref n')) ->
+  (In id Zs -> ZP' id n') ->
+  (forall x r, x <> id -> RP x r -> RP' x r) -> (forall z m, z <> id -> ZP z m -> ZP' z m) ->
+  SGood RP' ZP' Zs (put_node s id n') C0.
 Proof.
-  intros s C0 id n n' G Hid N HL HR HF HK.
+  intros RP' ZP' s C0 id n n' G Hid N HF HK HC HZ WR WZ.
   assert (LT : id < length (k_nodes s)) by (eapply dnode_lt; eauto).
   assert (KEY : forall x, nkey (put_node s id n') x = nkey s x).
   { intros. unfold nkey. rewrite dnode_put_node by auto. destruct (Nat.eqb id x) eqn:E; auto. apply Nat.eqb_eq in E. subst. rewrite N, HK. auto. }
-  assert (LVL : forall x, nlvl (put_node s id n') x = nlvl s x).
-  { intros. unfold nlvl. rewrite dnode_put_node by auto. destruct (Nat.eqb id x) eqn:E; auto. apply Nat.eqb_eq in E. subst. rewrite N, HL. auto. }
+  assert (LVL : forall x, In x C0 -> nlvl (put_node s id n') x = nlvl s x).
+  { intros x Hx. unfold nlvl. rewrite dnode_put_node by auto. destruct (Nat.eqb id x) eqn:E; auto. apply Nat.eqb_eq in E. subst.
+    destruct (HC (or_intror Hx)) as [HL _]. rewrite N, HL. auto. }
   assert (CH : forall l, chain (put_node s id n') C0 l = chain s C0 l).
-  { intros. unfold chain. apply filter_ext_in'. intros. unfold at_level. rewrite LVL. auto. }
+  { intros. unfold chain. apply filter_ext_in'. intros. unfold at_level. rewrite LVL; auto. }
   constructor.
-  - destruct (sg_hdr _ _ G) as [h [H1 [H2 H3]]]. rewrite dnode_put_node by auto. destruct (Nat.eqb id HEADER) eqn:E.
-    + apply Nat.eqb_eq in E. subst id. rewrite N in H1. inversion H1; subst h. exists n'. rewrite HK, HR. auto.
-    + exists h. auto.
-  - intros x Hx. destruct (sg_node _ _ G x Hx) as [m [k [M1 [M2 [M3 [M4 M5]]]]]]. rewrite dnode_put_node by auto.
+  - destruct (sg_hdr _ _ _ _ _ G) as [h [H1 [H2 H3]]]. rewrite dnode_put_node by auto. destruct (Nat.eqb id HEADER) eqn:E.
+    + apply Nat.eqb_eq in E. subst id. rewrite N in H1. inversion H1; subst h. exists n'. rewrite HK. split; auto. split; auto. apply HC. left; auto.
+    + exists h. apply Nat.eqb_neq in E. auto.
+  - intros x Hx. destruct (sg_node _ _ _ _ _ G x Hx) as [m [k [M1 [M2 [M3 [M4 M5]]]]]]. rewrite dnode_put_node by auto.
     destruct (Nat.eqb id x) eqn:E.
-    + apply Nat.eqb_eq in E. subst x. rewrite N in M1. inversion M1; subst m. exists n', k. rewrite HK, HR, HL. auto.
-    + exists m, k. auto.
-  - destruct (sg_own _ _ G) as [OA OI]. constructor.
+    + apply Nat.eqb_eq in E. subst x. rewrite N in M1. inversion M1; subst m. destruct (HC (or_intror Hx)) as [HL HR].
+      exists n', k. rewrite HK, HL. auto.
+    + apply Nat.eqb_neq in E. exists m, k. assert (RP' x (sn_ref m)) by (apply WR; auto). repeat split; auto; try lia. apply M4.
+  - destruct (sg_own _ _ _ _ _ G) as [OA OI]. constructor.
     + intros x m Hx M. rewrite dnode_put_node in M by auto. rewrite darr_put_node. destruct (Nat.eqb id x) eqn:E.
       * apply Nat.eqb_eq in E. subst x. inversion M; subst m. rewrite HF. eapply OA; eauto.
       * eapply OA; eauto.
@@ -522,15 +542,33 @@ Proof.
       * apply Nat.eqb_eq in E1. subst x. inversion M1; subst m1. rewrite HF in Q. eapply OI; eauto.
       * apply Nat.eqb_eq in E2. subst y. inversion M2; subst m2. rewrite HF in Q. eapply OI; eauto.
       * eapply OI; eauto.
-  - eapply ss_ext. 2: apply (sg_sorted _ _ G). intros a b _ _. unfold klt. rewrite !KEY. auto.
-  - intros l Hl. rewrite CH. apply (linked_ext s); [intros; eapply fwd_put_node; eauto | apply (sg_linked _ _ G l Hl)].
-  - apply (sg_level _ _ G).
-  - apply (sg_length _ _ G).
-  - apply (sg_iters _ _ G).
-  - apply (sg_alive _ _ G).
+  - intros z Hz. destruct (sg_z _ _ _ _ _ G z Hz) as [[m [M1 M2]] [Z1 Z2]]. split; auto. rewrite dnode_put_node by auto.
+    destruct (Nat.eqb id z) eqn:E.
+    + apply Nat.eqb_eq in E. subst z. exists n'. auto.
+    + apply Nat.eqb_neq in E. exists m. auto.
+  - eapply ss_ext. 2: apply (sg_sorted _ _ _ _ _ G). intros a b _ _. unfold klt. rewrite !KEY. auto.
+  - intros l Hl. rewrite CH. apply (linked_ext s); [intros; eapply fwd_put_node; eauto | apply (sg_linked _ _ _ _ _ G l Hl)].
+  - apply (sg_level _ _ _ _ _ G).
+  - apply (sg_length _ _ _ _ _ G).
+  - apply (sg_alive _ _ _ _ _ G).
   - intros h0. rewrite dnode_put_node by auto. destruct (Nat.eqb id HEADER) eqn:E0.
-    + apply Nat.eqb_eq in E0. subst id. intro Q. inversion Q; subst h0. rewrite HL. apply (sg_hlvl _ _ G). auto.
-    + apply (sg_hlvl _ _ G).
+    + apply Nat.eqb_eq in E0. subst id. intro Q. inversion Q; subst h0. destruct (HC (or_introl eq_refl)) as [HL _]. rewrite HL. apply (sg_hlvl _ _ _ _ _ G). auto.
+    + apply (sg_hlvl _ _ _ _ _ G).
+Qed.
+
+Lemma sgood_put_node : forall s C0 id n n', SG s C0 -> (id = HEADER \/ In id C0) -> dnode s id = Ok n ->
+  sn_level n' = sn_level n -> sn_ref n' = sn_ref n -> sn_fwd n' = sn_fwd n -> sn_key n' = sn_key n ->
+  SG (put_node s id n') C0.
+Proof.
+  intros s C0 id n n' G Hid N HL HR HF HK.
+  assert (NZ : ~ In id Zs).
+  { intro Q. destruct (sg_z _ _ _ _ _ G id Q) as [_ [Z1 Z2]]. destruct Hid; auto. }
+  eapply sgood_put_gen; eauto.
+  - destruct Hid. left; auto. right. apply in_or_app; auto.
+  - intros _. split; auto. rewrite HR. destruct Hid as [Hid|Hid].
+    + subst id. destruct (sg_hdr _ _ _ _ _ G) as [h [H1 [H2 H3]]]. rewrite N in H1. inversion H1; subst. auto.
+    + destruct (sg_node _ _ _ _ _ G id Hid) as [m [k [M1 [M2 [M3 _]]]]]. rewrite N in M1. inversion M1; subst. auto.
+  - intros; contradiction.
 Qed.
 
 Lemma sent_put_node : forall s id n' x, id < length (k_nodes s) ->
@@ -539,7 +577,7 @@ Lemma sent_put_node : forall s id n' x, id < length (k_nodes s) ->
   else sent s x.
 Proof. intros. unfold sent. rewrite dnode_put_node by auto. destruct (Nat.eqb id x) eqn:E; auto. Qed.
 
-Lemma kabs_put_node : forall s C0 id n n' f, SGood s C0 -> In id C0 -> dnode s id = Ok n -> sn_key n' <> None ->
+Lemma kabs_put_node : forall s C0 id n n' f, SG s C0 -> In id C0 -> dnode s id = Ok n -> sn_key n' <> None ->
   f (sent s id) = sent (put_node s id n') id ->
   kabs (put_node s id n') C0 = set_ents (kabs s C0) (upd_entry (r_ents (kabs s C0)) (re_id (sent s id)) f).
 Proof.
@@ -548,16 +586,16 @@ Proof.
   - unfold upd_entry. rewrite map_map. apply map_ext_in. intros x Hx.
     assert (RID : forall y, re_id (sent s y) = y - 1) by (intros; unfold sent; destruct (dnode s y); auto).
     rewrite !RID. destruct (Nat.eqb (x - 1) (id - 1)) eqn:E.
-    + apply Nat.eqb_eq in E. destruct (sg_node _ _ G x Hx) as [_ [_ [_ [_ [_ [_ X0]]]]]]. destruct (sg_node _ _ G id Hid) as [_ [_ [_ [_ [_ [_ I0]]]]]].
+    + apply Nat.eqb_eq in E. destruct (sg_node _ _ _ _ _ G x Hx) as [_ [_ [_ [_ [_ [_ X0]]]]]]. destruct (sg_node _ _ _ _ _ G id Hid) as [_ [_ [_ [_ [_ [_ I0]]]]]].
       unfold HEADER in *. assert (x = id) by lia. subst x. auto.
     + rewrite sent_put_node by auto. replace (Nat.eqb id x) with false; auto. symmetry. apply Nat.eqb_neq. intro; subst. rewrite Nat.eqb_refl in E. discriminate.
   - unfold put_node. simpl. rewrite upd_length. auto.
-  - unfold hsubs. rewrite dnode_put_node by auto. destruct (sg_node _ _ G id Hid) as [_ [_ [_ [_ [_ [_ I0]]]]]].
+  - unfold hsubs. rewrite dnode_put_node by auto. destruct (sg_node _ _ _ _ _ G id Hid) as [_ [_ [_ [_ [_ [_ I0]]]]]].
     replace (Nat.eqb id HEADER) with false; auto. symmetry. apply Nat.eqb_neq. auto.
 Qed.
 
 (* ---------- lookup, get, count, notifier bookkeeping, replacement ---------- *)
-Lemma lookup_k : forall s C0 k, SGood s C0 ->
+Lemma lookup_k : forall s C0 k, SG s C0 ->
   exists m, k_lookup s k = Ok m /\
     match m with Some y => In y C0 /\ nkey s y = k | None => forall y, In y C0 -> nkey s y <> k end.
 Proof.
@@ -575,46 +613,46 @@ Lemma sent_node : forall s id n k, dnode s id = Ok n -> sn_key n = Some k ->
   sent s id = {| re_id := id - 1; re_key := k; re_val := sn_val n; re_removed := false; re_subs := sn_subs n |}.
 Proof. intros. unfold sent. rewrite H, H0. reflexivity. Qed.
 
-Lemma kstep_get : forall rc s C0 k, SGood s C0 -> kstep_ok rc s C0 (Get k) [].
+Lemma kstep_get : forall rc s C0 k, SG s C0 -> kstep_ok rc s C0 (Get k) [].
 Proof.
-  intros. destruct rc as [[e1 e2] e3]. unfold kstep_ok, k_step, a_step. simpl. rewrite (sg_alive _ _ H). simpl.
+  intros. destruct rc as [[e1 e2] e3]. unfold kstep_ok, k_step, a_step. simpl. rewrite (sg_alive _ _ _ _ _ H). simpl.
   unfold k_get, a_get. destruct (lookup_k s C0 k H) as [m [L1 L2]]. rewrite L1. simpl.
   destruct (find_live_sent s C0 k H) as [F1 F2]. destruct m as [y|].
-  - destruct L2 as [Y1 Y2]. destruct (sg_node _ _ H y Y1) as [n [ky [N1 [N2 _]]]]. rewrite N1. simpl.
+  - destruct L2 as [Y1 Y2]. destruct (sg_node _ _ _ _ _ H y Y1) as [n [ky [N1 [N2 _]]]]. rewrite N1. simpl.
     rewrite (F1 y Y1 Y2). rewrite (sent_node _ _ _ _ N1 N2). simpl.
     exists s, C0, (OVal (sn_val n)), (OVal (sn_val n)), []. repeat split; auto.
   - rewrite (F2 L2). exists s, C0, (OVal 0%N), (OVal 0%N), []. repeat split; auto.
 Qed.
 
-Lemma kstep_count : forall rc s C0, SGood s C0 -> kstep_ok rc s C0 Count [].
+Lemma kstep_count : forall rc s C0, SG s C0 -> kstep_ok rc s C0 Count [].
 Proof.
-  intros. destruct rc as [[e1 e2] e3]. unfold kstep_ok, k_step, a_step. simpl. rewrite (sg_alive _ _ H). simpl.
+  intros. destruct rc as [[e1 e2] e3]. unfold kstep_ok, k_step, a_step. simpl. rewrite (sg_alive _ _ _ _ _ H). simpl.
   exists s, C0, (OCount (Z.to_N (k_length s))), (OCount (N.of_nat (length (live (kabs s C0))))), []. repeat split; auto.
-  simpl. rewrite (sg_length _ _ H), wrap_count, live_kabs. simpl. rewrite map_length. auto.
+  simpl. rewrite (sg_length _ _ _ _ _ H), wrap_count, live_kabs. simpl. rewrite map_length. auto.
 Qed.
 
 Lemma hsubs_put_node_other : forall s id n', id <> HEADER -> id < length (k_nodes s) -> hsubs (put_node s id n') = hsubs s.
 Proof. intros. unfold hsubs. rewrite dnode_put_node by auto. replace (Nat.eqb id HEADER) with false; auto. symmetry. apply Nat.eqb_neq. auto. Qed.
 
-Lemma kabs_put_header : forall s C0 h h', SGood s C0 -> dnode s HEADER = Ok h ->
+Lemma kabs_put_header : forall s C0 h h', SG s C0 -> dnode s HEADER = Ok h ->
   kabs (put_node s HEADER h') C0 = set_rsubs (kabs s C0) (sn_subs h').
 Proof.
   intros s C0 h h' G Hh. assert (LT : HEADER < length (k_nodes s)) by (eapply dnode_lt; eauto).
   unfold kabs, set_rsubs. simpl. f_equal.
-  - apply map_ext_in. intros x Hx. rewrite sent_put_node by auto. destruct (sg_node _ _ G x Hx) as [_ [_ [_ [_ [_ [_ X0]]]]]].
+  - apply map_ext_in. intros x Hx. rewrite sent_put_node by auto. destruct (sg_node _ _ _ _ _ G x Hx) as [_ [_ [_ [_ [_ [_ X0]]]]]].
     replace (Nat.eqb HEADER x) with false; auto. symmetry. apply Nat.eqb_neq. auto.
   - unfold put_node. simpl. rewrite upd_length. auto.
   - unfold hsubs. rewrite dnode_put_node by auto. rewrite Nat.eqb_refl. auto.
 Qed.
 
-Lemma kstep_notify_add : forall rc s C0 k fn ev ud, SGood s C0 -> kstep_ok rc s C0 (NotifyAdd k fn ev ud) [].
+Lemma kstep_notify_add : forall rc s C0 k fn ev ud, SG s C0 -> kstep_ok rc s C0 (NotifyAdd k fn ev ud) [].
 Proof.
-  intros rc s C0 k fn ev ud G. destruct rc as [[e1 e2] e3]. unfold kstep_ok, k_step, a_step. simpl. rewrite (sg_alive _ _ G). simpl.
+  intros rc s C0 k fn ev ud G. destruct rc as [[e1 e2] e3]. unfold kstep_ok, k_step, a_step. simpl. rewrite (sg_alive _ _ _ _ _ G). simpl.
   unfold k_notify_add, a_notify_add. destruct k as [kk|].
   - destruct (has_bit ev EV_FREE). { exists s, C0, (ORc e1), (ORc e1), []. repeat split; auto. }
     destruct (lookup_k s C0 kk G) as [m [L1 L2]]. rewrite L1. simpl.
     destruct (find_live_sent s C0 kk G) as [F1 F2]. destruct m as [y|].
-    + destruct L2 as [Y1 Y2]. destruct (sg_node _ _ G y Y1) as [n [ky [N1 [N2 [N3 [N4 N5]]]]]]. rewrite N1. simpl.
+    + destruct L2 as [Y1 Y2]. destruct (sg_node _ _ _ _ _ G y Y1) as [n [ky [N1 [N2 [N3 [N4 N5]]]]]]. rewrite N1. simpl.
       rewrite (F1 y Y1 Y2). rewrite (sent_node _ _ _ _ N1 N2). simpl.
       destruct (nsub_conflict (sn_subs n) fn ev ud). { exists s, C0, (ORc e3), (ORc e3), []. repeat split; auto. }
       eexists _, C0, (ORc 0), (ORc 0), []. split; [reflexivity|]. split; [|split; [reflexivity|]].
@@ -623,22 +661,22 @@ Proof.
         { rewrite (sent_node _ _ _ _ N1 N2). reflexivity. }
         { simpl. rewrite N2. discriminate. }
         { rewrite sent_put_node by (eapply dnode_lt; eauto). rewrite Nat.eqb_refl. rewrite (sent_node _ _ _ _ N1 N2). simpl. rewrite N2. reflexivity. }
-      * left. eapply sgood_put_node; eauto.
+      * left. split; [eapply sgood_put_node; eauto|split; [reflexivity|split; [reflexivity|auto]]].
     + rewrite (F2 L2). exists s, C0, (ORc e1), (ORc e1), []. repeat split; auto.
-  - destruct (sg_hdr _ _ G) as [h [H1 [H2 H3]]]. change (r_subs (kabs s C0)) with (hsubs s). unfold hsubs. unfold HEADER in *. rewrite H1. simpl. rewrite ?H1. simpl.
+  - destruct (sg_hdr _ _ _ _ _ G) as [h [H1 [H2 H3]]]. change (r_subs (kabs s C0)) with (hsubs s). unfold hsubs. unfold HEADER in *. rewrite H1. simpl. rewrite ?H1. simpl.
     destruct (nsub_conflict (sn_subs h) fn ev ud). { exists s, C0, (ORc e3), (ORc e3), []. repeat split; auto. }
     eexists _, C0, (ORc 0), (ORc 0), []. split; [reflexivity|]. split; [|split; [reflexivity|]].
     + f_equal. f_equal. symmetry. erewrite kabs_put_header; eauto.
-    + left. eapply sgood_put_node; eauto.
+    + left. split; [eapply sgood_put_node; eauto|split; [reflexivity|split; [reflexivity|auto]]].
 Qed.
 
-Lemma kstep_notify_del : forall rc s C0 k fn ev ud, SGood s C0 -> kstep_ok rc s C0 (NotifyDel k fn ev ud) [].
+Lemma kstep_notify_del : forall rc s C0 k fn ev ud, SG s C0 -> kstep_ok rc s C0 (NotifyDel k fn ev ud) [].
 Proof.
-  intros rc s C0 k fn ev ud G. destruct rc as [[e1 e2] e3]. unfold kstep_ok, k_step, a_step. simpl. rewrite (sg_alive _ _ G). simpl.
+  intros rc s C0 k fn ev ud G. destruct rc as [[e1 e2] e3]. unfold kstep_ok, k_step, a_step. simpl. rewrite (sg_alive _ _ _ _ _ G). simpl.
   unfold k_notify_del, a_notify_del. destruct k as [kk|].
   - destruct (lookup_k s C0 kk G) as [m [L1 L2]]. rewrite L1. simpl.
     destruct (find_live_sent s C0 kk G) as [F1 F2]. destruct m as [y|].
-    + destruct L2 as [Y1 Y2]. destruct (sg_node _ _ G y Y1) as [n [ky [N1 [N2 [N3 [N4 N5]]]]]]. rewrite N1. simpl.
+    + destruct L2 as [Y1 Y2]. destruct (sg_node _ _ _ _ _ G y Y1) as [n [ky [N1 [N2 [N3 [N4 N5]]]]]]. rewrite N1. simpl.
       rewrite (F1 y Y1 Y2). rewrite (sent_node _ _ _ _ N1 N2). simpl.
       destruct (existsb (nsub_match fn ev ud) (sn_subs n)). 2:{ exists s, C0, (ORc e2), (ORc e2), []. repeat split; auto. }
       eexists _, C0, (ORc 0), (ORc 0), []. split; [reflexivity|]. split; [|split; [reflexivity|]].
@@ -647,13 +685,13 @@ Proof.
         { rewrite (sent_node _ _ _ _ N1 N2). reflexivity. }
         { simpl. rewrite N2. discriminate. }
         { rewrite sent_put_node by (eapply dnode_lt; eauto). rewrite Nat.eqb_refl. rewrite (sent_node _ _ _ _ N1 N2). simpl. rewrite N2. reflexivity. }
-      * left. eapply sgood_put_node; eauto.
+      * left. split; [eapply sgood_put_node; eauto|split; [reflexivity|split; [reflexivity|auto]]].
     + rewrite (F2 L2). exists s, C0, (ORc e2), (ORc e2), []. repeat split; auto.
-  - destruct (sg_hdr _ _ G) as [h [H1 [H2 H3]]]. change (r_subs (kabs s C0)) with (hsubs s). unfold hsubs. unfold HEADER in *. rewrite H1. simpl. rewrite ?H1. simpl.
+  - destruct (sg_hdr _ _ _ _ _ G) as [h [H1 [H2 H3]]]. change (r_subs (kabs s C0)) with (hsubs s). unfold hsubs. unfold HEADER in *. rewrite H1. simpl. rewrite ?H1. simpl.
     destruct (existsb (nsub_match fn ev ud) (sn_subs h)). 2:{ exists s, C0, (ORc e2), (ORc e2), []. repeat split; auto. }
     eexists _, C0, (ORc 0), (ORc 0), []. split; [reflexivity|]. split; [|split; [reflexivity|]].
     + f_equal. f_equal. symmetry. erewrite kabs_put_header; eauto.
-    + left. eapply sgood_put_node; eauto.
+    + left. split; [eapply sgood_put_node; eauto|split; [reflexivity|split; [reflexivity|auto]]].
 Qed.
 
 (* ---------- canonical position of a key ---------- *)
@@ -886,7 +924,7 @@ Proof. intros. unfold dnode. rewrite H. reflexivity. Qed.
 
 (* the tail of skiplist_put once the position is known *)
 Lemma put_new_tail : forall s C0 s1 u1 k x nl lo hi,
-  SGood s C0 -> C0 = lo ++ hi ->
+  SG s C0 -> RP (length (k_nodes s)) 1 -> C0 = lo ++ hi ->
   (forall y, In y lo -> key_ltb (nkey s y) k = true) -> (forall y, In y hi -> key_ltb k (nkey s y) = true) ->
   nl <= LEVEL_MAX ->
   k_nodes s1 = k_nodes s -> k_arrs s1 = k_arrs s -> k_length s1 = k_length s -> k_iters s1 = k_iters s ->
@@ -897,66 +935,69 @@ Lemma put_new_tail : forall s C0 s1 u1 k x nl lo hi,
     (let '(s2, id) := node_new s1 (Z.of_nat nl) (Some k) x in
      do n <- dnode s2 id; do ns <- k_notify s2 n EV_INSERTED k 0%N x;
      do s3 <- link_levels s2 u1 id (seq 0 (S nl)); Ok (set_length s3 (wrap64 (k_length s3 + 1)), ns)) = Ok (s', ns) /\
-    SGood s' (lo ++ new :: hi) /\
+    SG s' (lo ++ new :: hi) /\
     ns = notify_global (hsubs s) EV_INSERTED k 0%N x /\
     (forall y, In y C0 -> sent s' y = sent s y) /\
     sent s' new = {| re_id := new - 1; re_key := k; re_val := x; re_removed := false; re_subs := [] |} /\
-    length (k_nodes s') = S new /\ hsubs s' = hsubs s /\ k_used s' = k_used s.
+    length (k_nodes s') = S new /\ hsubs s' = hsubs s /\ k_used s' = k_used s /\ k_iters s' = k_iters s.
 Proof.
-  intros s C0 s1 u1 k x nl lo hi G E LO HI Hnl N1 A1 LEN1 IT1 US1 AL1 LV1 UV new.
+  intros s C0 s1 u1 k x nl lo hi G RPN E LO HI Hnl N1 A1 LEN1 IT1 US1 AL1 LV1 UV new.
   destruct (node_new s1 (Z.of_nat nl) (Some k) x) as [s2 id] eqn:NN.
   destruct (node_new_spec _ _ _ _ _ _ NN) as [ID [N2 [A2 [LEN2 [LV2 [IT2 [US2 AL2]]]]]]].
   rewrite N1 in ID, N2. rewrite A1 in N2, A2. fold new in ID. subst id.
   set (nn := {| sn_key := Some k; sn_val := x; sn_level := Z.of_nat nl; sn_ref := 1; sn_subs := []; sn_fwd := length (k_arrs s) |}) in *.
   assert (DN : dnode s2 new = Ok nn) by (apply (dnode_app_new s s2 nn N2)).
   assert (OLDN : forall y, y < new -> dnode s2 y = dnode s y) by (intros; eapply dnode_app_old; eauto).
-  destruct (sg_hdr _ _ G) as [h [H1 [H2 H3]]].
+  destruct (sg_hdr _ _ _ _ _ G) as [h [H1 [H2 H3]]].
   assert (HLT : HEADER < new) by (eapply dnode_lt; eauto).
-  assert (CLT : forall y, In y C0 -> y < new). { intros y Hy. destruct (sg_node _ _ G y Hy) as [m [ky [M1 _]]]. eapply dnode_lt; eauto. }
-  destruct (sg_own _ _ G) as [OA OI].
-  assert (ARR : forall y m, In y (HEADER :: C0) -> dnode s y = Ok m -> sn_fwd m < length (k_arrs s)).
+  assert (CLT : forall y, In y C0 -> y < new). { intros y Hy. destruct (sg_node _ _ _ _ _ G y Hy) as [m [ky [M1 _]]]. eapply dnode_lt; eauto. }
+  assert (CLTZ : forall y, In y Zs -> y < new). { intros y Hy. destruct (sg_z _ _ _ _ _ G y Hy) as [[m [M1 _]] _]. eapply dnode_lt; eauto. }
+  assert (CLTU : forall y, In y (C0 ++ Zs) -> y < new). { intros y Hy. apply in_app_or in Hy. destruct Hy; auto. }
+  destruct (sg_own _ _ _ _ _ G) as [OA OI].
+  assert (ARR : forall y m, In y (HEADER :: C0 ++ Zs) -> dnode s y = Ok m -> sn_fwd m < length (k_arrs s)).
   { intros y m Hy M. destruct (OA y m Hy M) as [a [Q _]]. eapply darr_lt; eauto. }
   assert (OLDF : forall y l, (y = HEADER \/ In y C0) -> fwd s2 y l = fwd s y l).
-  { intros y l Hy. assert (exists m, dnode s y = Ok m). { destruct Hy. subst; eauto. destruct (sg_node _ _ G y H) as [m [ky [M1 _]]]; eauto. }
-    destruct H as [m M]. eapply fwd_app_old; eauto. apply (ARR y m); auto. destruct Hy; [left|right]; auto. }
+  { intros y l Hy. assert (exists m, dnode s y = Ok m). { destruct Hy. subst; eauto. destruct (sg_node _ _ _ _ _ G y H) as [m [ky [M1 _]]]; eauto. }
+    destruct H as [m M]. eapply fwd_app_old; eauto. apply (ARR y m); auto. destruct Hy; [left|right]; auto. apply in_or_app; auto. }
   assert (NEWF : forall l, l <= LEVEL_MAX -> fwd s2 new l = Ok None).
   { intros. unfold fwd. rewrite DN. cbn [bind]. change (sn_fwd nn) with (length (k_arrs s)). rewrite (darr_app_new s s2 _ A2). cbn [bind].
     rewrite nth_error_repeat by (unfold LEVEL_MAX in *; lia). reflexivity. }
   rewrite DN. cbn [bind]. unfold k_notify. rewrite (OLDN HEADER HLT), H1. cbn [bind]. simpl sn_subs. cbn [notify_node flat_map app].
   (* universe *)
-  set (U := new :: HEADER :: C0).
+  set (U := new :: HEADER :: C0 ++ Zs).
   assert (OWN2 : Own s2 U).
   { constructor.
     - intros y m Hy M. destruct Hy as [Hy|Hy].
       + subst y. rewrite DN in M. inversion M; subst m. simpl. rewrite (darr_app_new s s2 _ A2). eexists. split; [reflexivity|]. apply repeat_length.
-      + assert (y < new) by (destruct Hy; [subst; auto | apply CLT; auto]). rewrite OLDN in M by auto.
+      + assert (y < new) by (destruct Hy; [subst; auto | apply CLTU; auto]). rewrite OLDN in M by auto.
         destruct (OA y m Hy M) as [a [Q1 Q2]]. exists a. split; auto. rewrite (darr_app_old s s2 _ _ A2); auto. eapply darr_lt; eauto.
     - intros y z m1 m2 Hy Hz M1 M2 Q. destruct Hy as [Hy|Hy], Hz as [Hz|Hz]; try congruence.
       + subst y. rewrite DN in M1. inversion M1; subst m1. simpl in Q.
-        assert (z < new) by (destruct Hz; [subst; auto | apply CLT; auto]). rewrite OLDN in M2 by auto.
+        assert (z < new) by (destruct Hz; [subst; auto | apply CLTU; auto]). rewrite OLDN in M2 by auto.
         assert (sn_fwd m2 < length (k_arrs s)) by (apply (ARR z m2 Hz M2)). lia.
       + subst z. rewrite DN in M2. inversion M2; subst m2. simpl in Q.
-        assert (y < new) by (destruct Hy; [subst; auto | apply CLT; auto]). rewrite OLDN in M1 by auto.
+        assert (y < new) by (destruct Hy; [subst; auto | apply CLTU; auto]). rewrite OLDN in M1 by auto.
         assert (sn_fwd m1 < length (k_arrs s)) by (apply (ARR y m1 Hy M1)). lia.
-      + assert (y < new) by (destruct Hy; [subst; auto | apply CLT; auto]).
-        assert (z < new) by (destruct Hz; [subst; auto | apply CLT; auto]). rewrite OLDN in M1, M2 by auto. eapply OI; eauto. }
+      + assert (y < new) by (destruct Hy; [subst; auto | apply CLTU; auto]).
+        assert (z < new) by (destruct Hz; [subst; auto | apply CLTU; auto]). rewrite OLDN in M1, M2 by auto. eapply OI; eauto. }
   assert (SU2 : sub_universe U s2).
   { intros y [Hy|[Hy|Hy]]. subst; eauto. subst. rewrite OLDN by auto. eauto.
-    rewrite OLDN by (apply CLT; auto). destruct (sg_node _ _ G y Hy) as [m [ky [M1 _]]]; eauto. }
+    rewrite OLDN by (apply CLTU; auto). apply in_app_or in Hy. destruct Hy as [Hy|Hy].
+    destruct (sg_node _ _ _ _ _ G y Hy) as [m [ky [M1 _]]]; eauto. destruct (sg_z _ _ _ _ _ G y Hy) as [[m [M1 _]] _]; eauto. }
   assert (CH2 : forall X l, (forall y, In y X -> In y C0) -> chain s2 X l = chain s X l).
   { intros. unfold chain. apply filter_ext_in'. intros y Hy. unfold at_level, nlvl. rewrite OLDN by (apply CLT; auto). auto. }
   assert (LOC : forall y, In y lo -> In y C0) by (intros; rewrite E; apply in_or_app; auto).
   assert (HIC : forall y, In y hi -> In y C0) by (intros; rewrite E; apply in_or_app; auto).
   assert (NDC : NoDup C0) by (eapply sgood_nodup; eauto).
-  assert (HNC : ~ In HEADER C0). { intro Q. destruct (sg_node _ _ G HEADER Q) as [_ [_ [_ [_ [_ [_ Q2]]]]]]. congruence. }
+  assert (HNC : ~ In HEADER C0). { intro Q. destruct (sg_node _ _ _ _ _ G HEADER Q) as [_ [_ [_ [_ [_ [_ Q2]]]]]]. congruence. }
   destruct (link_ok (S nl) 0 s2 u1 U new lo hi) as [s3 [K1 [K2 [K3 [K4 K5]]]]]; auto.
   { unfold LEVEL_MAX in *. lia. }
   { left; auto. }
   { right; left; auto. }
-  { intros y Hy. right. right. rewrite E. auto. }
+  { intros y Hy. right. right. apply in_or_app. left. rewrite E. auto. }
   { constructor. intros [Q|Q]. unfold new, HEADER in *. lia. rewrite <- E in Q. apply CLT in Q. unfold new in Q. lia.
     constructor. rewrite <- E. auto. rewrite <- E. auto. }
-  { intros l _ Hl. rewrite !CH2 by auto. generalize (sg_linked _ _ G l Hl). rewrite E, chain_app. intro Q.
+  { intros l _ Hl. rewrite !CH2 by auto. generalize (sg_linked _ _ _ _ _ G l Hl). rewrite E, chain_app. intro Q.
     apply (linked_ext s). 2: exact Q. intros y Hy. apply OLDF. destruct Hy as [Hy|Hy]; auto. right. rewrite E.
     apply in_app_or in Hy. apply in_or_app. destruct Hy as [Hy|Hy]; [left|right]; unfold chain in Hy; apply filter_In in Hy; apply Hy. }
   { intros l _ Hl. rewrite CH2 by auto. apply UV. lia. }
@@ -981,62 +1022,67 @@ Proof.
   { constructor.
     - exists h. rewrite OLD3 by auto. auto.
     - intros y Hy. apply in_app_or in Hy. destruct Hy as [Hy|[Hy|Hy]].
-      + destruct (sg_node _ _ G y (LOC y Hy)) as [m [ky [M1 [M2 [M3 [M4 M5]]]]]]. exists m, ky. rewrite OLD3 by (apply CLT; auto). rewrite LVMAX. repeat split; auto; lia.
+      + destruct (sg_node _ _ _ _ _ G y (LOC y Hy)) as [m [ky [M1 [M2 [M3 [M4 M5]]]]]]. exists m, ky. rewrite OLD3 by (apply CLT; auto). rewrite LVMAX. repeat split; auto; lia.
       + subst y. exists nn, k. rewrite NEW3, LVMAX. simpl. repeat split; auto; try lia; unfold new, HEADER in *; lia.
-      + destruct (sg_node _ _ G y (HIC y Hy)) as [m [ky [M1 [M2 [M3 [M4 M5]]]]]]. exists m, ky. rewrite OLD3 by (apply CLT; auto). rewrite LVMAX. repeat split; auto; lia.
+      + destruct (sg_node _ _ _ _ _ G y (HIC y Hy)) as [m [ky [M1 [M2 [M3 [M4 M5]]]]]]. exists m, ky. rewrite OLD3 by (apply CLT; auto). rewrite LVMAX. repeat split; auto; lia.
     - apply (own_incl s' U).
       + destruct K3 as [KA1 KA2]. constructor.
         * intros y m Hy M. apply (KA1 y m Hy). exact M.
         * intros y z m1 m2 Hy Hz M1 M2. apply (KA2 y z m1 m2 Hy Hz M1 M2).
-      + intros y [Hy|Hy]. subst. right; left; auto. apply in_app_or in Hy. destruct Hy as [Hy|[Hy|Hy]].
-        right; right; auto. subst; left; auto. right; right; auto.
+      + intros y [Hy|Hy]. subst. right; left; auto. apply in_app_or in Hy. destruct Hy as [Hy|Hy].
+        apply in_app_or in Hy. destruct Hy as [Hy|[Hy|Hy]].
+        right; right; apply in_or_app; auto. subst; left; auto. right; right; apply in_or_app; auto.
+        right; right; apply in_or_app; auto.
+    - intros z Hz. destruct (sg_z _ _ _ _ _ G z Hz) as [[m [M1 M2]] [Z1 Z2]]. split; [|split; auto].
+      + exists m. rewrite OLD3 by auto. auto.
+      + intro Q. apply in_app_or in Q. destruct Q as [Q|[Q|Q]]. apply Z2; auto. apply CLTZ in Hz. lia. apply Z2; auto.
     - apply ss_insert.
-      + eapply ss_ext. 2:{ rewrite <- E. apply (sg_sorted _ _ G). } intros a b Ha Hb. unfold klt. rewrite <- E in Ha, Hb.
+      + eapply ss_ext. 2:{ rewrite <- E. apply (sg_sorted _ _ _ _ _ G). } intros a b Ha Hb. unfold klt. rewrite <- E in Ha, Hb.
         rewrite !KEYO by (apply CLT; auto). auto.
       + intros a Ha. unfold klt. rewrite KEYN, KEYO by (apply CLT; auto). auto.
       + intros b Hb. unfold klt. rewrite KEYN, KEYO by (apply CLT; auto). auto.
     - intros l Hl. rewrite CHN. destruct (Nat.leb l nl) eqn:LE.
       + apply Nat.leb_le in LE. generalize (K5 l (Nat.le_0_l l)). rewrite !CH2 by auto. intro Q. cbn [app]. apply (linked_ext s3); [intros; apply FW3|]. apply Q. lia.
-      + apply Nat.leb_gt in LE. cbn [app]. generalize (sg_linked _ _ G l Hl). rewrite E, chain_app. intro Q.
+      + apply Nat.leb_gt in LE. cbn [app]. generalize (sg_linked _ _ _ _ _ G l Hl). rewrite E, chain_app. intro Q.
         apply (linked_ext s). 2: exact Q. intros y Hy. rewrite FW3. rewrite K4.
         * apply OLDF. destruct Hy as [Hy|Hy]; auto. right. rewrite E. apply in_app_or in Hy. apply in_or_app.
           destruct Hy as [Hy|Hy]; [left|right]; unfold chain in Hy; apply filter_In in Hy; apply Hy.
         * right. lia.
-        * destruct Hy as [Hy|Hy]. subst. right; left; auto. right; right. rewrite E. apply in_app_or in Hy. apply in_or_app.
+        * destruct Hy as [Hy|Hy]. subst. right; left; auto. right; right. apply in_or_app. left. rewrite E. apply in_app_or in Hy. apply in_or_app.
           destruct Hy as [Hy|Hy]; [left|right]; unfold chain in Hy; apply filter_In in Hy; apply Hy.
-    - rewrite LVMAX. generalize (sg_level _ _ G). unfold LEVEL_MAX in *. lia.
-    - unfold s'. simpl. rewrite KL, LEN2, LEN1, (sg_length _ _ G), wrap64_succ. f_equal. rewrite E, !app_length. simpl. lia.
-    - unfold s'. simpl. rewrite KI, IT2, IT1. apply (sg_iters _ _ G).
-    - unfold s'. simpl. rewrite KA, AL2, AL1. apply (sg_alive _ _ G).
-    - intros h0. rewrite OLD3 by auto. apply (sg_hlvl _ _ G). }
+    - rewrite LVMAX. generalize (sg_level _ _ _ _ _ G). unfold LEVEL_MAX in *. lia.
+    - unfold s'. simpl. rewrite KL, LEN2, LEN1, (sg_length _ _ _ _ _ G), wrap64_succ. f_equal. rewrite E, !app_length. simpl. lia.
+    - unfold s'. simpl. rewrite KA, AL2, AL1. apply (sg_alive _ _ _ _ _ G).
+    - intros h0. rewrite OLD3 by auto. apply (sg_hlvl _ _ _ _ _ G). }
   split. { unfold hsubs. rewrite H1. reflexivity. }
   split. { intros y Hy. unfold sent. rewrite OLD3 by (apply CLT; auto). auto. }
   split. { unfold sent. rewrite NEW3. reflexivity. }
   split. { unfold s'. simpl. rewrite KN, N2, app_length. simpl. unfold new. lia. }
   split. { unfold hsubs. rewrite OLD3 by auto. auto. }
-  unfold s'. simpl. rewrite KU, US2, US1. auto.
+  split. { unfold s'. simpl. rewrite KU, US2, US1. auto. }
+  unfold s'. simpl. rewrite KI, IT2, IT1. auto.
 Qed.
 
-Lemma chain_empty_above : forall s C0 X l, SGood s C0 -> (forall y, In y X -> In y C0) -> (k_level s < Z.of_nat l)%Z -> chain s X l = [].
+Lemma chain_empty_above : forall s C0 X l, SG s C0 -> (forall y, In y X -> In y C0) -> (k_level s < Z.of_nat l)%Z -> chain s X l = [].
 Proof.
   intros. unfold chain. destruct (filter (at_level s l) X) eqn:F; auto. exfalso.
   assert (In n (filter (at_level s l) X)) by (rewrite F; left; auto). apply filter_In in H2. destruct H2 as [I1 I2].
-  destruct (sg_node _ _ H n (H0 n I1)) as [m [ky [M1 [_ [_ [M4 _]]]]]]. unfold at_level, nlvl in I2. rewrite M1 in I2. apply Nat.leb_le in I2. lia.
+  destruct (sg_node _ _ _ _ _ H n (H0 n I1)) as [m [ky [M1 [_ [_ [M4 _]]]]]]. unfold at_level, nlvl in I2. rewrite M1 in I2. apply Nat.leb_le in I2. lia.
 Qed.
 
-Lemma kstep_put : forall rc s C0 k x orc, SGood s C0 -> kstep_ok rc s C0 (Put k x) orc.
+Lemma kstep_put : forall rc s C0 k x orc, SG s C0 -> RP (length (k_nodes s)) 1 -> kstep_ok rc s C0 (Put k x) orc.
 Proof.
-  intros rc s C0 k x orc G. destruct rc as [[e1 e2] e3]. unfold kstep_ok, k_step, a_step. simpl. rewrite (sg_alive _ _ G). simpl.
+  intros rc s C0 k x orc G RPN. destruct rc as [[e1 e2] e3]. unfold kstep_ok, k_step, a_step. simpl. rewrite (sg_alive _ _ _ _ _ G). simpl.
   unfold k_put, a_put. destruct (search_top s C0 true k G) as [R [R1 R2]]. rewrite R1. cbn [bind].
   destruct (find_live_sent s C0 k G) as [F1 F2].
   destruct R2 as [[_ [y [Y0 [Y1 Y2]]]]|[[c [u [T1 [T2 [T3 T4]]]]] AB]].
   - (* replacement *)
     destruct R as [[m c] u]. simpl in Y0. subst m. cbn beta iota.
-    destruct (sg_node _ _ G y Y1) as [n [ky [N1 [N2 [N3 [N4 N5]]]]]]. rewrite N1. cbn [bind]. rewrite N2.
+    destruct (sg_node _ _ _ _ _ G y Y1) as [n [ky [N1 [N2 [N3 [N4 N5]]]]]]. rewrite N1. cbn [bind]. rewrite N2.
     assert (KY : ky = k) by (rewrite <- Y2; symmetry; eapply nkey_some; eauto). subst ky.
     assert (LT : y < length (k_nodes s)) by (eapply dnode_lt; eauto).
     unfold k_notify. rewrite dnode_put_node by auto. replace (Nat.eqb y HEADER) with false by (symmetry; apply Nat.eqb_neq; auto).
-    destruct (sg_hdr _ _ G) as [h [H1 _]]. rewrite H1. cbn [bind].
+    destruct (sg_hdr _ _ _ _ _ G) as [h [H1 _]]. rewrite H1. cbn [bind].
     change (r_ents (kabs s C0)) with (map (sent s) C0). rewrite (F1 y Y1 Y2). rewrite (sent_node _ _ _ _ N1 N2). simpl.
     eexists _, C0, ONone, ONone, _. split; [reflexivity|]. split; [|split; [reflexivity|]].
     + f_equal. f_equal.
@@ -1045,7 +1091,7 @@ Proof.
         { simpl. discriminate. }
         { rewrite sent_put_node by auto. rewrite Nat.eqb_refl. simpl. reflexivity. }
       * unfold r_notify. simpl. unfold hsubs. rewrite H1. reflexivity.
-    + left. eapply sgood_put_node; eauto.
+    + left. split; [eapply sgood_put_node; eauto|split; [reflexivity|split; [reflexivity|auto]]].
   - (* insertion *)
     subst R. cbn beta iota.
     change (find_live (r_ents (kabs s C0)) k) with (find_live (map (sent s) C0) k). rewrite (F2 (AB eq_refl)).
@@ -1072,12 +1118,15 @@ Proof.
                r_next := S (r_next (kabs s C0)); r_subs := r_subs (kabs s C0); r_iters := r_iters (kabs s C0);
                r_used := r_used (kabs s C0); r_alive := r_alive (kabs s C0) |},
             r_notify (kabs s C0) {| re_id := r_next (kabs s C0); re_key := k; re_val := x; re_removed := false; re_subs := [] |} EV_INSERTED k 0%N x) in
-         (r', ONone, ns0)) = (kabs s' C0', x', ns) /\ x0 = out_wrap x' /\ (SGood s' C0' \/ k_alive s' = false)).
+         (r', ONone, ns0)) = (kabs s' C0', x', ns) /\ x0 = out_wrap x' /\
+        ((SG s' C0' /\ k_iters s' = k_iters s /\ k_used s' = k_used s /\
+          (forall y n, In y C0 -> dnode s y = Ok n -> sn_ref n <> 1 -> In y C0')) \/ k_alive s' = false)).
     { intros s1 u1 N1 A1 LEN1 IT1 US1 AL1 LV1 UV1.
-      destruct (put_new_tail s C0 s1 u1 k x nl lo hi G E LO HI Hnl N1 A1 LEN1 IT1 US1 AL1 LV1 UV1)
-        as [s' [ns [P1 [P2 [P3 [P4 [P5 [P6 [P7 P8]]]]]]]]].
+      destruct (put_new_tail s C0 s1 u1 k x nl lo hi G RPN E LO HI Hnl N1 A1 LEN1 IT1 US1 AL1 LV1 UV1)
+        as [s' [ns [P1 [P2 [P3 [P4 [P5 [P6 [P7 [P8 P9]]]]]]]]]].
       rewrite P1. cbn [bind].
-      exists s', (lo ++ length (k_nodes s) :: hi), ONone, ONone, ns. split; [reflexivity|]. split; [|split; [reflexivity|left; auto]].
+      exists s', (lo ++ length (k_nodes s) :: hi), ONone, ONone, ns. split; [reflexivity|]. split; [|split; [reflexivity|left; split; auto; split; auto; split; auto;
+        intros y0 n0 Hy0 _ _; rewrite E in Hy0; apply in_app_or in Hy0; apply in_or_app; destruct Hy0; auto; right; right; auto]].
       f_equal. f_equal.
       - unfold kabs. simpl. f_equal.
         + rewrite E. rewrite !map_app. simpl. rewrite ins_before_app.
@@ -1085,15 +1134,15 @@ Proof.
             f_equal. rewrite P5. reflexivity. symmetry. apply map_ext_in. intros y Hy. apply P4. rewrite E. apply in_or_app; auto.
           * intros e He. apply in_map_iff in He. destruct He as [y [Q1 Q2]]. subst e. rewrite sent_key. unfold skip_before. rewrite LO; auto.
           * intros e He. apply in_map_iff in He. destruct He as [y [Q1 Q2]]. subst e. rewrite sent_key. unfold skip_before. rewrite HI0; auto.
-        + rewrite P6. destruct (sg_hdr _ _ G) as [h [H1 _]]. apply dnode_lt in H1. unfold HEADER in H1. lia.
+        + rewrite P6. destruct (sg_hdr _ _ _ _ _ G) as [h [H1 _]]. apply dnode_lt in H1. unfold HEADER in H1. lia.
         + auto.
         + auto.
-        + first [symmetry; apply (sg_alive _ _ P2) | rewrite (sg_alive _ _ P2); rewrite ?(sg_alive _ _ G); reflexivity].
+        + first [symmetry; apply (sg_alive _ _ _ _ _ P2) | rewrite (sg_alive _ _ _ _ _ P2); rewrite ?(sg_alive _ _ _ _ _ G); reflexivity].
       - rewrite P3. unfold r_notify. simpl. reflexivity. }
     destruct (Z.ltb (k_level s) (Z.of_nat nl)) eqn:LT.
     + apply Z.ltb_lt in LT. apply TAIL; auto.
       * simpl. lia.
-      * intros l Hl. generalize (sg_level _ _ G). intro LVB.
+      * intros l Hl. generalize (sg_level _ _ _ _ _ G). intro LVB.
         destruct (Z_le_dec (Z.of_nat l) (k_level s)).
         { rewrite uv_get_app_hdr_out. apply UVB; auto. left. lia. }
         { rewrite uv_get_app_hdr_in by lia. rewrite (chain_empty_above s C0 lo l G LOC) by lia. reflexivity. }
@@ -1232,41 +1281,61 @@ Proof.
   apply Forall_forall. intros z Hz. eapply Forall_forall in H3; eauto. apply in_app_or in Hz. apply in_or_app. destruct Hz; auto. right; right; auto.
 Qed.
 
-Lemma node_next_ok : forall s C0 c T, SGood s C0 -> Linked s 0 c T -> (forall x, In x T -> In x C0) ->
+Lemma node_next_ok : forall s C0 c T, SG s C0 -> Linked s 0 c T -> (forall x, In x T -> In x C0) ->
   node_next (search_fuel s) s c = Ok (hd_error T).
 Proof.
   intros. unfold search_fuel. destruct (12 * (length (k_nodes s) + 2)) eqn:F; [lia|]. cbn [node_next].
   rewrite (linked_head _ _ _ _ H0). cbn [bind]. destruct T; auto. cbn [hd_error].
-  destruct (sg_node _ _ H n0 (H1 n0 (or_introl eq_refl))) as [m [ky [M1 [_ [M3 _]]]]]. rewrite M1. cbn [bind]. rewrite M3. reflexivity.
+  destruct (sg_node _ _ _ _ _ H n0 (H1 n0 (or_introl eq_refl))) as [m [ky [M1 [_ [M3 _]]]]]. rewrite M1. cbn [bind]. rewrite (ref_pos_eqb _ (RP_pos _ _ M3)). reflexivity.
 Qed.
 
 Lemma linked_nil_inv : forall s l x rest, Linked s l x rest -> fwd s x l = Ok None -> rest = [].
 Proof. intros. destruct rest; auto. destruct H. congruence. Qed.
 
-Lemma kstep_rm : forall rc s C0 k, SGood s C0 -> kstep_ok rc s C0 (Rm k) [].
+Definition lower_ref (n : snode) : snode :=
+  {| sn_key := sn_key n; sn_val := sn_val n; sn_level := sn_level n; sn_ref := pred (sn_ref n); sn_subs := sn_subs n; sn_fwd := sn_fwd n |}.
+
+Lemma deref_store_ok : forall s y ny, dnode s y = Ok ny -> 1 < sn_ref ny ->
+  k_node_deref kv_fixed s y = Ok (put_node s y (lower_ref ny), []).
 Proof.
-  intros rc s C0 k G. destruct rc as [[e1 e2] e3]. unfold kstep_ok, k_step, a_step. simpl. rewrite (sg_alive _ _ G). simpl.
-  unfold k_rm, a_rm. destruct (search_top s C0 false k G) as [R [R1 R2]]. rewrite R1. cbn [bind].
+  intros. unfold k_node_deref. rewrite H. cbn [bind]. unfold lower_ref. destruct (sn_ref ny) as [|[|r]]; try lia. reflexivity.
+Qed.
+
+(* skiplist_rm on the pointer structure: either the key is absent, or its node y is unlinked from every level, marked
+   removed and loses the list's reference - it is destroyed when that was the last one and stays allocated (with its
+   forward array) otherwise *)
+Lemma rm_found : forall s C0 k, SG s C0 ->
+  (k_rm kv_fixed s k = Ok (s, false, []) /\ (forall z, In z C0 -> nkey s z <> k)) \/
+  (exists lo y hi' ny h s' ns, C0 = lo ++ y :: hi' /\ dnode s y = Ok ny /\ sn_key ny = Some k /\ dnode s HEADER = Ok h /\
+     k_rm kv_fixed s k = Ok (s', true, ns) /\
+     SG s' (lo ++ hi') /\
+     (forall z, z <> y -> dnode s' z = dnode s z) /\
+     length (k_nodes s') = length (k_nodes s) /\ k_used s' = k_used s /\ k_alive s' = k_alive s /\ k_iters s' = k_iters s /\
+     ((sn_ref ny = 1 /\ ns = notify_node (sn_subs ny) EV_DELETED k (sn_val ny) 0%N ++ notify_global (sn_subs h) EV_DELETED k (sn_val ny) 0%N) \/
+      (1 < sn_ref ny /\ ns = [] /\
+       dnode s' y = Ok {| sn_key := sn_key ny; sn_val := sn_val ny; sn_level := -1; sn_ref := pred (sn_ref ny); sn_subs := sn_subs ny; sn_fwd := sn_fwd ny |} /\
+       (exists a, darr s' (sn_fwd ny) = Ok a /\ length a = S LEVEL_MAX) /\
+       (forall z m, In z (HEADER :: (lo ++ hi') ++ Zs) -> dnode s' z = Ok m -> sn_fwd m <> sn_fwd ny)))).
+Proof.
+  intros s C0 k G. unfold k_rm. destruct (search_top s C0 false k G) as [R [R1 R2]]. rewrite R1. cbn [bind].
   destruct R2 as [[Q _]|[[c [u [T1 [T2 [T3 T4]]]]] _]]; [discriminate|]. subst R. cbn beta iota.
-  destruct (find_live_sent s C0 k G) as [F1 F2].
-  change (find_live (r_ents (kabs s C0)) k) with (find_live (map (sent s) C0) k).
   destruct T2 as [lo [hi [E [LO [CQ HI0]]]]]. rewrite chain_level0 in HI0, CQ. rewrite last_cons' in CQ.
   assert (LOC : forall y, In y lo -> In y C0) by (intros; rewrite E; apply in_or_app; auto).
   assert (HIC : forall y, In y hi -> In y C0) by (intros; rewrite E; apply in_or_app; auto).
   assert (L00 : Linked s 0 c hi).
-  { generalize (sg_linked _ _ G 0 (Nat.le_0_l _)). rewrite chain_level0, E. intro Q. apply linked_split in Q. rewrite <- CQ in Q. apply Q. }
+  { generalize (sg_linked _ _ _ _ _ G 0 (Nat.le_0_l _)). rewrite chain_level0, E. intro Q. apply linked_split in Q. rewrite <- CQ in Q. apply Q. }
   rewrite (node_next_ok s C0 c hi G L00 HIC). cbn [bind].
   destruct hi as [|y hi']; cbn [hd_error].
   { (* nothing at or after the key *)
-    rewrite F2. exists s, C0, (OBool false), (OBool false), []. repeat split; auto.
+    left. split; auto.
     intros z Hz. rewrite E, app_nil_r in Hz. apply key_eqb_neq. apply key_ltb_neq. auto. }
   assert (YC : In y C0) by (apply HIC; left; auto).
-  destruct (sg_node _ _ G y YC) as [ny [ky [N1 [N2 [N3 [N4 N5]]]]]]. rewrite N1. cbn [bind]. rewrite N2.
+  destruct (sg_node _ _ _ _ _ G y YC) as [ny [ky [N1 [N2 [N3 [N4 N5]]]]]]. rewrite N1. cbn [bind]. rewrite N2.
   assert (KY : nkey s y = ky) by (eapply nkey_some; eauto).
-  assert (SSH : StronglySorted (klt s) (y :: hi')) by (eapply ss_app_r; rewrite <- E; apply (sg_sorted _ _ G)).
+  assert (SSH : StronglySorted (klt s) (y :: hi')) by (eapply ss_app_r; rewrite <- E; apply (sg_sorted _ _ _ _ _ G)).
   destruct (key_eqb ky k) eqn:EQ; cbn [negb].
   2:{ (* the next key is larger: absent *)
-    rewrite F2. exists s, C0, (OBool false), (OBool false), []. repeat split; auto.
+    left. split; auto.
     intros z Hz. rewrite E in Hz. apply in_app_or in Hz. destruct Hz as [Hz|Hz].
     - apply key_eqb_neq. apply key_ltb_neq. auto.
     - assert (GT : key_ltb k ky = true).
@@ -1276,27 +1345,29 @@ Proof.
       assert (H2 : klt s y z) by (eapply Forall_forall in FA; eauto). unfold klt in H2. rewrite KY in H2.
       apply key_eqb_neq. rewrite key_eqb_sym. apply key_ltb_neq. eapply key_ltb_trans; eauto. }
   apply key_eqb_eq in EQ. rewrite EQ in N2, KY. clear EQ.
-  rewrite (F1 y YC KY). rewrite (sent_node _ _ _ _ N1 N2). cbn [parked existsb r_iters kabs re_id].
+  right.
   (* the list level is not negative: y lives on it *)
   set (L := Z.to_nat (k_level s)). assert (EL : k_level s = Z.of_nat L) by (unfold L; lia).
-  generalize (sg_level _ _ G). intro LVB.
+  generalize (sg_level _ _ _ _ _ G). intro LVB.
   assert (UV : forall l, l < 0 + S L -> uv_get u l = Some (last (chain s lo l) HEADER)).
   { intros l Hl. destruct (T3 l) as [xx [X1 X2]]. lia. rewrite X1. f_equal.
     rewrite (levelfact_canon s C0 k lo (y :: hi') l xx E LO HI0 X2). apply last_cons'. }
-  set (U := HEADER :: C0).
+  set (U := HEADER :: C0 ++ Zs).
   assert (NDC : NoDup C0) by (eapply sgood_nodup; eauto).
-  assert (HNC : ~ In HEADER C0). { intro Q. destruct (sg_node _ _ G HEADER Q) as [_ [_ [_ [_ [_ [_ Q2]]]]]]. congruence. }
+  assert (HNC : ~ In HEADER C0). { intro Q. destruct (sg_node _ _ _ _ _ G HEADER Q) as [_ [_ [_ [_ [_ [_ Q2]]]]]]. congruence. }
   assert (SU : sub_universe U s).
-  { intros z [Hz|Hz]. subst. destruct (sg_hdr _ _ G) as [h [H1 _]]. eauto. destruct (sg_node _ _ G z Hz) as [m [kz [M1 _]]]. eauto. }
+  { intros z [Hz|Hz]. subst. destruct (sg_hdr _ _ _ _ _ G) as [h [H1 _]]. eauto. apply in_app_or in Hz. destruct Hz as [Hz|Hz].
+    destruct (sg_node _ _ _ _ _ G z Hz) as [m [kz [M1 _]]]. eauto. destruct (sg_z _ _ _ _ _ G z Hz) as [[m [M1 _]] _]. eauto. }
+  assert (YU : In y U) by (right; apply in_or_app; auto).
   destruct (splice_ok (S L) 0 s u U y lo hi') as [s1 [S1 [S2 [S3 [S4 S5]]]]].
   { unfold L, LEVEL_MAX. lia. }
-  { apply (sg_own _ _ G). }
+  { apply (sg_own _ _ _ _ _ G). }
   { exact SU. }
-  { right; auto. }
+  { exact YU. }
   { left; auto. }
-  { intros z Hz. right. rewrite E. auto. }
+  { intros z Hz. right. apply in_or_app. left. rewrite E. auto. }
   { constructor. rewrite <- E. auto. rewrite <- E. auto. }
-  { intros l _ Hl. generalize (sg_linked _ _ G l Hl). rewrite E, chain_app. auto. }
+  { intros l _ Hl. generalize (sg_linked _ _ _ _ _ G l Hl). rewrite E, chain_app. auto. }
   { intros l _ Hl. apply UV. auto. }
   fold L. rewrite S1. cbn [bind]. simpl kx_removed. cbv iota.
   destruct S2 as [SN [SLEN [SLV [SIT [SUS SAL]]]]].
@@ -1305,28 +1376,48 @@ Proof.
   set (ny' := {| sn_key := sn_key ny; sn_val := sn_val ny; sn_level := -1; sn_ref := sn_ref ny; sn_subs := sn_subs ny; sn_fwd := sn_fwd ny |}).
   set (s2 := put_node s1 y ny').
   assert (LT1 : y < length (k_nodes s1)) by (rewrite SN; eapply dnode_lt; eauto).
-  destruct (sg_hdr _ _ G) as [h [H1 [H2 H3]]].
-  destruct (own_arr _ _ S3 y ny) as [ay [AY1 AY2]]. right; auto. rewrite D1; auto.
-  destruct (deref_destroy_ok s2 y ny' k ay h) as [s3 [P1 [P2 [P3 [P4 [P5 [P6 [P7 [P8 P9]]]]]]]]].
-  { unfold s2. rewrite dnode_put_node by auto. rewrite Nat.eqb_refl. auto. }
-  { simpl. auto. }
-  { simpl. rewrite N2. auto. }
-  { auto. }
-  { unfold s2. rewrite darr_put_node. exact AY1. }
-  { unfold s2. rewrite dnode_put_node by auto. replace (Nat.eqb y HEADER) with false by (symmetry; apply Nat.eqb_neq; auto). rewrite D1. auto. }
+  destruct (sg_hdr _ _ _ _ _ G) as [h [H1 [H2 H3]]].
+  destruct (own_arr _ _ S3 y ny) as [ay [AY1 AY2]]. exact YU. rewrite D1; auto.
+  assert (DY2 : dnode s2 y = Ok ny') by (unfold s2; rewrite dnode_put_node by auto; rewrite Nat.eqb_refl; auto).
+  assert (DR : exists s3 ns, k_node_deref kv_fixed s2 y = Ok (s3, ns) /\
+     (forall x, x <> y -> dnode s3 x = dnode s2 x) /\
+     (forall b, b <> sn_fwd ny' -> darr s3 b = darr s2 b) /\
+     length (k_nodes s3) = length (k_nodes s2) /\ k_length s3 = k_length s2 /\ k_level s3 = k_level s2 /\ k_iters s3 = k_iters s2 /\
+     k_used s3 = k_used s2 /\ k_alive s3 = k_alive s2 /\
+     ((sn_ref ny = 1 /\ ns = notify_node (sn_subs ny) EV_DELETED k (sn_val ny) 0%N ++ notify_global (sn_subs h) EV_DELETED k (sn_val ny) 0%N) \/
+      (1 < sn_ref ny /\ ns = [] /\ dnode s3 y = Ok (lower_ref ny') /\ darr s3 (sn_fwd ny) = darr s2 (sn_fwd ny)))).
+  { assert (RPOS : 1 <= sn_ref ny) by (eapply RP_pos; eauto).
+    destruct (Nat.eq_dec (sn_ref ny) 1) as [R1'|R1'].
+    - destruct (deref_destroy_ok s2 y ny' k ay h) as [s3 [P1 [P2 [P3 [P4 [P5 [P6 [P7 [P8 P9]]]]]]]]]; auto.
+      { unfold s2. rewrite dnode_put_node by auto. replace (Nat.eqb y HEADER) with false by (symmetry; apply Nat.eqb_neq; auto). rewrite D1. auto. }
+      exists s3, (notify_node (sn_subs ny) EV_DELETED k (sn_val ny) 0%N ++ notify_global (sn_subs h) EV_DELETED k (sn_val ny) 0%N).
+      split; [exact P1|]. repeat split; auto. 
+    - rewrite (deref_store_ok s2 y ny' DY2) by (simpl; lia).
+      assert (LT2 : y < length (k_nodes s2)) by (unfold s2, put_node; simpl; rewrite upd_length; auto).
+      eexists _, []. split; [reflexivity|]. split.
+      { intros x Hx. rewrite dnode_put_node by auto. replace (Nat.eqb y x) with false by (symmetry; apply Nat.eqb_neq; auto). reflexivity. }
+      split. { intros. apply darr_put_node. }
+      split. { unfold put_node. simpl. rewrite !upd_length. reflexivity. }
+      repeat split; auto. right. split. lia. split; auto. split. rewrite dnode_put_node by auto. rewrite Nat.eqb_refl. reflexivity. apply darr_put_node. }
+  destruct DR as [s3 [ns [P1 [P2 [P3 [P4 [P5 [P6 [P7 [P8 [P9 PC]]]]]]]]]]].
   rewrite P1. cbn [bind].
   (* reading s3 on the surviving nodes *)
   assert (D3 : forall z, z <> y -> dnode s3 z = dnode s z).
   { intros. rewrite P2 by auto. unfold s2. rewrite dnode_put_node by auto. replace (Nat.eqb y z) with false by (symmetry; apply Nat.eqb_neq; auto). apply D1. }
-  assert (SURV : forall z, In z (HEADER :: lo ++ hi') -> z <> y /\ In z U).
+  assert (SURV : forall z, In z (HEADER :: (lo ++ hi') ++ Zs) -> z <> y /\ In z U).
   { intros z Hz. split.
-    - intro; subst z. destruct Hz as [Hz|Hz]. congruence. rewrite E in NDC. apply NoDup_remove_2 in NDC. contradiction.
-    - destruct Hz as [Hz|Hz]. left; auto. right. rewrite E. apply in_app_or in Hz. apply in_or_app. destruct Hz; auto. right; right; auto. }
+    - intro; subst z. destruct Hz as [Hz|Hz]. congruence. apply in_app_or in Hz. destruct Hz as [Hz|Hz].
+      rewrite E in NDC. apply NoDup_remove_2 in NDC. contradiction.
+      destruct (sg_z _ _ _ _ _ G y Hz) as [_ [_ Q]]. contradiction.
+    - destruct Hz as [Hz|Hz]. left; auto. right. apply in_app_or in Hz. apply in_or_app. destruct Hz as [Hz|Hz]; auto. left.
+      rewrite E. apply in_app_or in Hz. apply in_or_app. destruct Hz; auto. right; right; auto. }
+  assert (SURV0 : forall z, In z (HEADER :: lo ++ hi') -> z <> y /\ In z U).
+  { intros z Hz. apply SURV. destruct Hz; [left|right]; auto. apply in_or_app; auto. }
   assert (F3 : forall z l, In z (HEADER :: lo ++ hi') -> fwd s3 z l = fwd s1 z l).
-  { intros z l Hz. destruct (SURV z Hz) as [NZ UZ]. destruct (SU z UZ) as [m M].
+  { intros z l Hz. destruct (SURV0 z Hz) as [NZ UZ]. destruct (SU z UZ) as [m M].
     unfold fwd. rewrite D3, <- D1 by auto. rewrite D1, M. cbn [bind]. rewrite P3.
     - unfold s2. rewrite darr_put_node. reflexivity.
-    - simpl. intro Q. apply NZ. apply (own_inj _ _ S3 z y m ny); auto. right; auto. rewrite D1; auto. rewrite D1; auto. }
+    - simpl. intro Q. apply NZ. apply (own_inj _ _ S3 z y m ny); auto. rewrite D1; auto. rewrite D1; auto. }
   assert (CH3 : forall X l, (forall z, In z X -> z <> y) -> chain s3 X l = chain s X l).
   { intros. unfold chain. apply filter_ext_in'. intros z Hz. unfold at_level, nlvl. rewrite D3; auto. }
   assert (CHX : forall X l, chain s1 X l = chain s X l).
@@ -1341,7 +1432,7 @@ Proof.
         assert (EMP : forall X, (forall z, In z X -> In z C0) -> chain s X l = []) by (intros; eapply chain_empty_above; eauto; lia).
         rewrite (EMP lo LOC), (EMP hi'). 2:{ intros; apply HIC; right; auto. } simpl.
         rewrite S4. 2:{ right. lia. } 2:{ left; auto. }
-        generalize (sg_linked _ _ G l Hl). rewrite (EMP C0) by auto. simpl. auto. }
+        generalize (sg_linked _ _ _ _ _ G l Hl). rewrite (EMP C0) by auto. simpl. auto. }
   (* shrink *)
   assert (LV3 : k_level s3 = Z.of_nat L). { rewrite P6. unfold s2. simpl. rewrite SLV. exact EL. }
   replace (Z.ltb (k_level s3) 0) with false by (symmetry; apply Z.ltb_ge; lia). rewrite LV3, Nat2Z.id.
@@ -1349,38 +1440,20 @@ Proof.
   { intros l Hl. eexists. apply linked_head. apply LK3. unfold L, LEVEL_MAX. lia. }
   rewrite W1. cbn [bind].
   assert (D4 : forall c0 z, dnode (set_length s4 c0) z = dnode s3 z) by (intros; unfold dnode; cbn [k_nodes set_length]; rewrite W2; reflexivity).
-  eexists _, (lo ++ hi'), (OBool true), (OBool true), _. split; [reflexivity|]. split; [|split; [reflexivity|]].
-  - unfold a_destroy_entry. cbn beta iota zeta. f_equal. f_equal.
-    + unfold kabs, set_ents. simpl. f_equal.
-      * rewrite E. unfold del_entry. rewrite !map_app. simpl. rewrite filter_app. simpl.
-        replace (y - 1 - 0) with (y - 1) by lia.
-        assert (RID : forall z, re_id (sent s z) = z - 1) by (intros; unfold sent; destruct (dnode s z); auto).
-        rewrite (sent_node _ _ _ _ N1 N2). simpl. rewrite Nat.eqb_refl. simpl.
-        assert (KEEP : forall X, (forall z, In z X -> In z C0 /\ z <> y) ->
-                  filter (fun e => negb (Nat.eqb (re_id e) (y - 1))) (map (sent s) X) = map (sent (set_length s4 (wrap64 (k_length s4 - 1)))) X).
-        { intros X HX. rewrite filter_all_true.
-          - apply map_ext_in. intros z Hz. destruct (HX z Hz) as [Z1 Z2]. unfold sent. rewrite D4, D3; auto.
-          - apply forallb_forall. intros e He. apply in_map_iff in He. destruct He as [z [Z1 Z2]]. subst e. rewrite RID. apply negb_true_iff. apply Nat.eqb_neq.
-            destruct (HX z Z2) as [Z3 Z4]. destruct (sg_node _ _ G z Z3) as [_ [_ [_ [_ [_ [_ Z0]]]]]]. unfold HEADER in *. lia. }
-        rewrite <- (KEEP lo), <- (KEEP hi'). reflexivity.
-        { intros z Hz. split. apply HIC; right; auto. intro Q; subst z. rewrite E in NDC. apply NoDup_remove_2 in NDC. apply NDC. apply in_or_app; auto. }
-        { intros z Hz. split. apply LOC; auto. intro Q; subst z. rewrite E in NDC. apply NoDup_remove_2 in NDC. apply NDC. apply in_or_app; auto. }
-      * simpl. rewrite W2, P4. unfold s2, put_node. simpl. rewrite upd_length, SN. reflexivity.
-      * unfold hsubs. rewrite D4, D3 by auto. reflexivity.
-      * simpl. rewrite W6, P8. unfold s2. simpl. rewrite SUS. reflexivity.
-      * simpl. rewrite W7, P9. unfold s2. simpl. rewrite SAL. rewrite (sg_alive _ _ G). reflexivity.
-    + unfold r_notify. simpl. unfold hsubs. rewrite H1. reflexivity.
-  - left. set (s' := set_length s4 (wrap64 (k_length s4 - 1))).
-    assert (DS : forall z, z <> y -> dnode s' z = dnode s z). { intros. unfold s'. rewrite D4. apply D3; auto. }
-    assert (FS : forall z l, fwd s' z l = fwd s3 z l). { intros. unfold fwd, dnode, darr. simpl. rewrite W2, W3. reflexivity. }
-    assert (NY : forall z, In z (lo ++ hi') -> z <> y /\ In z C0).
-    { intros z Hz. destruct (SURV z (or_intror Hz)) as [Z1 [Z2|Z2]]; auto. subst z. split; auto. exfalso.
-      apply HNC. rewrite E. apply in_app_or in Hz. apply in_or_app. destruct Hz; auto. right; right; auto. }
-    assert (CHS : forall l, chain s' (lo ++ hi') l = chain s (lo ++ hi') l).
-    { intros. unfold chain. apply filter_ext_in'. intros z Hz. unfold at_level, nlvl. rewrite DS; auto. apply NY; auto. }
-    constructor.
+  set (s' := set_length s4 (wrap64 (k_length s4 - 1))).
+  assert (DS : forall z, z <> y -> dnode s' z = dnode s z). { intros. unfold s'. rewrite D4. apply D3; auto. }
+  assert (FS : forall z l, fwd s' z l = fwd s3 z l). { intros. unfold fwd, dnode, darr. simpl. rewrite W2, W3. reflexivity. }
+  assert (AS : forall b, darr s' b = darr s3 b). { intros. unfold darr. simpl. rewrite W3. reflexivity. }
+  assert (NY : forall z, In z (lo ++ hi') -> z <> y /\ In z C0).
+  { intros z Hz. destruct (SURV0 z (or_intror Hz)) as [Z1 _]. split; auto.
+    rewrite E. apply in_app_or in Hz. apply in_or_app. destruct Hz; auto. right; right; auto. }
+  assert (CHS : forall l, chain s' (lo ++ hi') l = chain s (lo ++ hi') l).
+  { intros. unfold chain. apply filter_ext_in'. intros z Hz. unfold at_level, nlvl. rewrite DS; auto. apply NY; auto. }
+  exists lo, y, hi', ny, h, s', ns. split; [exact E|]. split; [exact N1|]. split; [exact N2|]. split; [exact H1|]. split; [reflexivity|].
+  split.
+  { constructor.
     + exists h. rewrite DS by auto. auto.
-    + intros z Hz. destruct (NY z Hz) as [Z1 Z2]. destruct (sg_node _ _ G z Z2) as [m [kz [M1 [M2 [M3 [M4 M5]]]]]].
+    + intros z Hz. destruct (NY z Hz) as [Z1 Z2]. destruct (sg_node _ _ _ _ _ G z Z2) as [m [kz [M1 [M2 [M3 [M4 M5]]]]]].
       exists m, kz. rewrite DS by auto. repeat split; auto; try lia.
       (* its level is still within the list level *)
       unfold s'. simpl. destruct (Z_le_dec (sn_level m) (k_level s4)); auto. exfalso.
@@ -1392,19 +1465,75 @@ Proof.
     + constructor.
       * intros z m Hz M. destruct (SURV z Hz) as [Z1 Z2]. rewrite DS in M by auto.
         destruct (own_arr _ _ S3 z m Z2) as [a [A1 A2]]. rewrite D1; auto. exists a. split; auto.
-        unfold darr. simpl. rewrite W3. fold (darr s3 (sn_fwd m)). rewrite P3. unfold s2. rewrite darr_put_node. auto.
-        simpl. intro Q. apply Z1. apply (own_inj _ _ S3 z y m ny); auto. right; auto. rewrite D1; auto. rewrite D1; auto.
+        rewrite AS. rewrite P3. unfold s2. rewrite darr_put_node. auto.
+        simpl. intro Q. apply Z1. apply (own_inj _ _ S3 z y m ny); auto. rewrite D1; auto. rewrite D1; auto.
       * intros z1 z2 m1 m2 Hz1 Hz2 M1 M2 Q. destruct (SURV z1 Hz1) as [A1 A2]. destruct (SURV z2 Hz2) as [B1 B2].
-        rewrite DS in M1, M2 by auto. apply (own_inj _ _ (sg_own _ _ G) z1 z2 m1 m2); auto.
-    + eapply ss_ext. 2:{ eapply ss_remove. rewrite <- E. apply (sg_sorted _ _ G). }
+        rewrite DS in M1, M2 by auto. apply (own_inj _ _ (sg_own _ _ _ _ _ G) z1 z2 m1 m2); auto.
+    + intros z Hz. destruct (sg_z _ _ _ _ _ G z Hz) as [[m [M1 M2]] [Z1 Z2]].
+      assert (z <> y) by (intro; subst; contradiction). split; [|split; auto].
+      * exists m. rewrite DS by auto. auto.
+      * intro Q. apply Z2. apply NY; auto.
+    + eapply ss_ext. 2:{ eapply ss_remove. rewrite <- E. apply (sg_sorted _ _ _ _ _ G). }
       intros a b Ha Hb. unfold klt, nkey. rewrite !DS; auto. apply NY; auto. apply NY; auto.
     + intros l Hl. rewrite CHS. apply (linked_ext s3). intros; apply FS. apply LK3; auto.
     + unfold s'. simpl. unfold LEVEL_MAX in *. lia.
-    + unfold s'. simpl. rewrite W4, P5. unfold s2. simpl. rewrite SLEN, (sg_length _ _ G), wrap64_pred. f_equal.
+    + unfold s'. simpl. rewrite W4, P5. unfold s2. simpl. rewrite SLEN, (sg_length _ _ _ _ _ G), wrap64_pred. f_equal.
       rewrite E, !app_length. simpl. lia.
-    + unfold s'. simpl. rewrite W5, P7. unfold s2. simpl. rewrite SIT. apply (sg_iters _ _ G).
-    + unfold s'. simpl. rewrite W7, P9. unfold s2. simpl. rewrite SAL. apply (sg_alive _ _ G).
-    + intros h0. rewrite DS by auto. apply (sg_hlvl _ _ G).
+    + unfold s'. simpl. rewrite W7, P9. unfold s2. simpl. rewrite SAL. apply (sg_alive _ _ _ _ _ G).
+    + intros h0. rewrite DS by auto. apply (sg_hlvl _ _ _ _ _ G). }
+  split. { exact DS. }
+  split. { unfold s'. simpl. rewrite W2, P4. unfold s2, put_node. simpl. rewrite upd_length, SN. reflexivity. }
+  split. { unfold s'. simpl. rewrite W6, P8. unfold s2. simpl. rewrite SUS. reflexivity. }
+  split. { unfold s'. simpl. rewrite W7, P9. unfold s2. simpl. rewrite SAL. reflexivity. }
+  split. { unfold s'. simpl. rewrite W5, P7. unfold s2. simpl. rewrite SIT. reflexivity. }
+  destruct PC as [[PC1 PC2]|[PC1 [PC2 [PC3 PC4]]]].
+  - left. auto.
+  - right. split; auto. split; auto. split.
+    { unfold s'. rewrite D4. rewrite PC3. reflexivity. }
+    split.
+    { exists ay. split; auto. rewrite AS, PC4. unfold s2. rewrite darr_put_node. exact AY1. }
+    intros z m Hz M Q. destruct (SURV z Hz) as [Z1 Z2]. rewrite DS in M by auto.
+    apply Z1. apply (own_inj _ _ (sg_own _ _ _ _ _ G) z y m ny); auto.
+Qed.
+
+Lemma kstep_rm : forall rc s C0 k, SG s C0 -> (forall id r, RP id r -> r = 1) -> kstep_ok rc s C0 (Rm k) [].
+Proof.
+  intros rc s C0 k G RONE. destruct rc as [[e1 e2] e3]. unfold kstep_ok, k_step, a_step. simpl. rewrite (sg_alive _ _ _ _ _ G). simpl.
+  unfold a_rm. destruct (find_live_sent s C0 k G) as [F1 F2].
+  change (find_live (r_ents (kabs s C0)) k) with (find_live (map (sent s) C0) k).
+  destruct (rm_found s C0 k G) as [[A1 A2]|[lo [y [hi' [ny [h [s' [ns [E [N1 [N2 [H1 [A1 [G' [DS [LN [US [AL [IT CS]]]]]]]]]]]]]]]]]]].
+  { rewrite A1. cbn [bind]. rewrite (F2 A2). exists s, C0, (OBool false), (OBool false), []. repeat split; auto. }
+  rewrite A1. cbn [bind].
+  assert (YC : In y C0) by (rewrite E; apply in_or_app; right; left; auto).
+  assert (KY : nkey s y = k) by (eapply nkey_some; eauto).
+  assert (NDC : NoDup C0) by (eapply sgood_nodup; eauto).
+  destruct (sg_node _ _ _ _ _ G y YC) as [ny0 [ky0 [N1' [_ [N3 [_ N5]]]]]]. rewrite N1 in N1'. inversion N1'; subst ny0.
+  apply RONE in N3.
+  destruct CS as [[_ NS]|[Q _]]; [|lia].
+  rewrite (F1 y YC KY). rewrite (sent_node _ _ _ _ N1 N2). cbn [parked existsb r_iters kabs re_id].
+  eexists s', (lo ++ hi'), (OBool true), (OBool true), ns. split; [reflexivity|]. split; [|split; [reflexivity|]].
+  - unfold a_destroy_entry. cbn beta iota zeta. f_equal. f_equal.
+    + unfold kabs, set_ents. simpl. f_equal.
+      * rewrite E. unfold del_entry. rewrite !map_app. simpl. rewrite filter_app. simpl.
+        replace (y - 1 - 0) with (y - 1) by lia.
+        assert (RID : forall z, re_id (sent s z) = z - 1) by (intros; unfold sent; destruct (dnode s z); auto).
+        rewrite (sent_node _ _ _ _ N1 N2). simpl. rewrite Nat.eqb_refl. simpl.
+        assert (KEEP : forall X, (forall z, In z X -> In z C0 /\ z <> y) ->
+                  filter (fun e => negb (Nat.eqb (re_id e) (y - 1))) (map (sent s) X) = map (sent s') X).
+        { intros X HX. rewrite filter_all_true.
+          - apply map_ext_in. intros z Hz. destruct (HX z Hz) as [Z1 Z2]. unfold sent. rewrite DS; auto.
+          - apply forallb_forall. intros e He. apply in_map_iff in He. destruct He as [z [Z1 Z2]]. subst e. rewrite RID. apply negb_true_iff. apply Nat.eqb_neq.
+            destruct (HX z Z2) as [Z3 Z4]. destruct (sg_node _ _ _ _ _ G z Z3) as [_ [_ [_ [_ [_ [_ Z0]]]]]]. unfold HEADER in *. lia. }
+        rewrite <- (KEEP lo), <- (KEEP hi'). reflexivity.
+        { intros z Hz. split. rewrite E. apply in_or_app. right; right; auto. intro Q; subst z. rewrite E in NDC. apply NoDup_remove_2 in NDC. apply NDC. apply in_or_app; auto. }
+        { intros z Hz. split. rewrite E. apply in_or_app; auto. intro Q; subst z. rewrite E in NDC. apply NoDup_remove_2 in NDC. apply NDC. apply in_or_app; auto. }
+      * rewrite LN. reflexivity.
+      * unfold hsubs. rewrite DS by auto. reflexivity.
+      * auto.
+      * auto.
+    + rewrite NS. unfold r_notify. simpl. unfold hsubs. rewrite H1. reflexivity.
+  - left. split; auto. split; auto. split; auto. intros z nz Hz NZ RZ. exfalso. apply RZ.
+    destruct (sg_node _ _ _ _ _ G z Hz) as [m [kz [M1 [_ [M3 _]]]]]. rewrite NZ in M1. inversion M1; subst. eapply RONE; eauto.
 Qed.
 
 (* ---------- destroy ---------- *)
@@ -1412,7 +1541,7 @@ Qed.
 Record Rest (s : kstate) (hsub : list nsub) (T : list nat) : Prop := {
   rs_hdr : exists h, dnode s HEADER = Ok h /\ sn_subs h = hsub;
   rs_nodup : NoDup (HEADER :: T);
-  rs_node : forall x, In x T -> exists n k a, dnode s x = Ok n /\ sn_key n = Some k /\ sn_ref n = 1 /\ darr s (sn_fwd n) = Ok a;
+  rs_node : forall x, In x T -> exists n k a, dnode s x = Ok n /\ sn_key n = Some k /\ 1 <= sn_ref n /\ darr s (sn_fwd n) = Ok a;
   rs_own : forall x y n m, In x (HEADER :: T) -> In y (HEADER :: T) -> dnode s x = Ok n -> dnode s y = Ok m -> sn_fwd n = sn_fwd m -> x = y;
   rs_link : match T with [] => True | x :: T' => Linked s 0 x T' end
 }.
@@ -1459,7 +1588,7 @@ Proof.
     assert (NX : node_next (search_fuel s) s a = Ok (hd_error T)).
     { unfold search_fuel. destruct (12 * (length (k_nodes s) + 2)) eqn:F; [lia|]. cbn [node_next].
       generalize (rs_link _ _ _ R). intro L. rewrite (linked_head _ _ _ _ L). cbn [bind]. destruct T; auto. cbn [hd_error].
-      destruct (rs_node _ _ _ R n1) as [m [km [am [M1 [M2 [M3 M4]]]]]]. right; left; auto. rewrite M1. cbn [bind]. rewrite M3. reflexivity. }
+      destruct (rs_node _ _ _ R n1) as [m [km [am [M1 [M2 [M3 M4]]]]]]. right; left; auto. rewrite M1. cbn [bind]. rewrite (ref_pos_eqb _ M3). reflexivity. }
     rewrite NX. cbn [bind].
     destruct (node_destroy_ok s a n k ar h N1 N2 NH N4 H1) as [s1 [D1 [D2 [D3 [D4 D5]]]]]. rewrite D1. cbn [bind].
     assert (NDT : NoDup (HEADER :: a :: T)) by apply (rs_nodup _ _ _ R).
@@ -1492,28 +1621,30 @@ Proof.
       split. lia. congruence.
 Qed.
 
-Lemma kstep_destroy : forall rc s C0, SGood s C0 -> kstep_ok rc s C0 Destroy [].
+Lemma kstep_destroy : forall rc s C0, SG s C0 -> kstep_ok rc s C0 Destroy [].
 Proof.
-  intros rc s C0 G. destruct rc as [[e1 e2] e3]. unfold kstep_ok, k_step, a_step. simpl. rewrite (sg_alive _ _ G). simpl.
+  intros rc s C0 G. destruct rc as [[e1 e2] e3]. unfold kstep_ok, k_step, a_step. simpl. rewrite (sg_alive _ _ _ _ _ G). simpl.
   unfold k_destroy. simpl kx_removed. cbv iota.
-  assert (L0 : Linked s 0 HEADER C0). { generalize (sg_linked _ _ G 0 (Nat.le_0_l _)). rewrite chain_level0. auto. }
+  assert (L0 : Linked s 0 HEADER C0). { generalize (sg_linked _ _ _ _ _ G 0 (Nat.le_0_l _)). rewrite chain_level0. auto. }
   rewrite (node_next_ok s C0 HEADER C0 G L0) by auto. cbn [bind].
-  destruct (sg_hdr _ _ G) as [h [H1 [H2 H3]]].
+  destruct (sg_hdr _ _ _ _ _ G) as [h [H1 [H2 H3]]].
   assert (NDC : NoDup C0) by (eapply sgood_nodup; eauto).
-  assert (HNC : ~ In HEADER C0). { intro Q. destruct (sg_node _ _ G HEADER Q) as [_ [_ [_ [_ [_ [_ Q2]]]]]]. congruence. }
+  assert (HNC : ~ In HEADER C0). { intro Q. destruct (sg_node _ _ _ _ _ G HEADER Q) as [_ [_ [_ [_ [_ [_ Q2]]]]]]. congruence. }
   assert (RS : Rest s (sn_subs h) C0).
   { constructor.
     - exists h. auto.
     - constructor; auto.
-    - intros x Hx. destruct (sg_node _ _ G x Hx) as [n [k [N1 [N2 [N3 _]]]]].
-      destruct (own_arr _ _ (sg_own _ _ G) x n) as [a [A1 _]]. right; auto. auto. exists n, k, a. auto.
-    - apply (own_inj _ _ (sg_own _ _ G)).
+    - intros x Hx. destruct (sg_node _ _ _ _ _ G x Hx) as [n [k [N1 [N2 [N3 _]]]]].
+      destruct (own_arr _ _ (sg_own _ _ _ _ _ G) x n) as [a [A1 _]]. right; apply in_or_app; auto. auto.
+      assert (1 <= sn_ref n) by (eapply RP_pos; eauto). exists n, k, a. auto.
+    - intros x y n m Hx Hy. apply (own_inj _ _ (sg_own _ _ _ _ _ G)).
+      destruct Hx; [left|right; apply in_or_app]; auto. destruct Hy; [left|right; apply in_or_app]; auto.
     - destruct C0; auto. cbn [Linked] in L0. apply L0. }
   destruct (destroy_loop_ok C0 (S (length (k_nodes s))) s (sn_subs h)) as [s1 [D1 [[h1 [D2 [D3 D4]]] [D5 [D6 D7]]]]]; auto.
   { generalize (sgood_len _ _ G). lia. }
   rewrite D1. cbn [bind]. rewrite H1 in D4. inversion D4; subst h1.
   (* finally the header *)
-  destruct (own_arr _ _ (sg_own _ _ G) HEADER h) as [a [A1 _]]. left; auto. auto.
+  destruct (own_arr _ _ (sg_own _ _ _ _ _ G) HEADER h) as [a [A1 _]]. left; auto. auto.
   unfold k_node_destroy. rewrite D2. cbn [bind]. simpl kx_hdr_notify. rewrite Nat.eqb_refl. cbn [andb bind]. simpl kx_removed. cbv iota.
   unfold free_arr. rewrite (D5 h H1), A1. cbn [bind]. unfold free_node. unfold dnode at 1. cbn [k_nodes set_arrs]. fold (dnode s1 HEADER). rewrite D2. cbn [bind].
   eexists _, [], ONone, ONone, _. split; [reflexivity|]. split; [|split; [reflexivity|right; reflexivity]].
@@ -1524,7 +1655,7 @@ Proof.
       unfold HEADER in *. destruct (k_nodes s1); simpl in *. lia. reflexivity.
     + auto.
   - rewrite app_nil_r. rewrite live_kabs. simpl. rewrite flat_map_map. apply flat_map_ext'. intros x Hx.
-    destruct (sg_node _ _ G x Hx) as [n [k [N1 [N2 _]]]]. unfold del_notifs_k. rewrite N1, N2.
+    destruct (sg_node _ _ _ _ _ G x Hx) as [n [k [N1 [N2 _]]]]. unfold del_notifs_k. rewrite N1, N2.
     rewrite (sent_node _ _ _ _ N1 N2). unfold r_notify. simpl. unfold hsubs. rewrite H1. reflexivity.
 Qed.
 
@@ -1550,14 +1681,14 @@ Proof.
   destruct (Nat.eqb p i) eqn:E1, (Nat.eqb x i) eqn:E2; auto. apply Nat.eqb_eq in E1, E2. subst. contradiction.
 Qed.
 
-Lemma node_deref_bumped_k : forall s p n, dnode s p = Ok (bumpk n) -> sn_ref n = 1 ->
+Lemma node_deref_bumped_k : forall s p n, dnode s p = Ok (bumpk n) -> 1 <= sn_ref n ->
   k_node_deref kv_fixed s p = Ok (put_node s p n, []).
 Proof.
-  intros. unfold k_node_deref. rewrite H. cbn [bind]. simpl sn_ref. rewrite H0. destruct n; simpl in *; subst. reflexivity.
+  intros. unfold k_node_deref. rewrite H. cbn [bind]. simpl sn_ref. destruct n; simpl in *. destruct sn_ref; [lia|]. reflexivity.
 Qed.
 
 (* one skiplist_iter_next of a traversal over an untouched list: p is the current position (header or an entry) *)
-Lemma iter_next_k : forall s C0 pre p T n, SGood s C0 -> HEADER :: C0 = pre ++ p :: T -> dnode s p = Ok n ->
+Lemma iter_next_k : forall s C0 pre p T n, SG s C0 -> HEADER :: C0 = pre ++ p :: T -> dnode s p = Ok n ->
   k_iter_next kv_fixed (put_node s p (bumpk n)) (Some p) =
   match T with
   | [] => Ok (s, None, None, [])
@@ -1570,14 +1701,14 @@ Proof.
   intros s C0 pre p T n G E N.
   assert (PIN : In p (HEADER :: C0)) by (rewrite E; apply in_or_app; right; left; auto).
   assert (LT : p < length (k_nodes s)) by (eapply dnode_lt; eauto).
-  assert (R1 : sn_ref n = 1 /\ (0 <= sn_level n)%Z).
-  { destruct PIN as [Q|Q]. subst p. destruct (sg_hdr _ _ G) as [h [H1 [H2 H3]]]. rewrite H1 in N. inversion N; subst. split; auto. apply (sg_hlvl _ _ G); auto.
-    destruct (sg_node _ _ G p Q) as [m [k [M1 [M2 [M3 [M4 M5]]]]]]. rewrite M1 in N. inversion N; subst. split; auto. lia. }
+  assert (R1 : 1 <= sn_ref n /\ (0 <= sn_level n)%Z).
+  { destruct PIN as [Q|Q]. subst p. destruct (sg_hdr _ _ _ _ _ G) as [h [H1 [H2 H3]]]. rewrite H1 in N. inversion N; subst. split; [eapply RP_pos; eauto|]. apply (sg_hlvl _ _ _ _ _ G); auto.
+    destruct (sg_node _ _ _ _ _ G p Q) as [m [k [M1 [M2 [M3 [M4 M5]]]]]]. rewrite M1 in N. inversion N; subst. split; [eapply RP_pos; eauto|]. lia. }
   destruct R1 as [R1 R2].
   assert (NDH : NoDup (HEADER :: C0)).
-  { constructor. intro Q. destruct (sg_node _ _ G HEADER Q) as [_ [_ [_ [_ [_ [_ Q2]]]]]]. congruence. eapply sgood_nodup; eauto. }
+  { constructor. intro Q. destruct (sg_node _ _ _ _ _ G HEADER Q) as [_ [_ [_ [_ [_ [_ Q2]]]]]]. congruence. eapply sgood_nodup; eauto. }
   assert (LKT : Linked s 0 p T).
-  { generalize (sg_linked _ _ G 0 (Nat.le_0_l _)). rewrite chain_level0. intro L.
+  { generalize (sg_linked _ _ _ _ _ G 0 (Nat.le_0_l _)). rewrite chain_level0. intro L.
     destruct pre as [|q pre'].
     - simpl in E. inversion E; subst. auto.
     - simpl in E. inversion E; subst q. eapply linked_suffix. exact L. exact H1. }
@@ -1592,14 +1723,14 @@ Proof.
   { unfold search_fuel. destruct (12 * (length (k_nodes (put_node s p (bumpk n))) + 2)) eqn:F; [lia|]. cbn [node_next].
     rewrite (fwd_put_node s p n (bumpk n)) by auto. rewrite (linked_head _ _ _ _ LKT). cbn [bind]. destruct T as [|x T']; auto. cbn [hd_error].
     destruct (TC x (or_introl eq_refl)) as [XC XP].
-    destruct (sg_node _ _ G x XC) as [m [k [M1 [M2 [M3 _]]]]].
-    rewrite dnode_put_node by auto. replace (Nat.eqb p x) with false by (symmetry; apply Nat.eqb_neq; auto). rewrite M1. cbn [bind]. rewrite M3. reflexivity. }
+    destruct (sg_node _ _ _ _ _ G x XC) as [m [k [M1 [M2 [M3 _]]]]].
+    rewrite dnode_put_node by auto. replace (Nat.eqb p x) with false by (symmetry; apply Nat.eqb_neq; auto). rewrite M1. cbn [bind]. rewrite (ref_pos_eqb _ (RP_pos _ _ M3)). reflexivity. }
   rewrite NX. destruct T as [|x T']; cbn [hd_error bind].
   - rewrite (node_deref_bumped_k _ p n); auto.
     + cbn [bind]. rewrite put_node_twice, put_node_same by auto. reflexivity.
     + rewrite dnode_put_node by auto. rewrite Nat.eqb_refl. reflexivity.
   - destruct (TC x (or_introl eq_refl)) as [XC XP].
-    destruct (sg_node _ _ G x XC) as [m [k [M1 [M2 [M3 _]]]]]. rewrite M1.
+    destruct (sg_node _ _ _ _ _ G x XC) as [m [k [M1 [M2 [M3 _]]]]]. rewrite M1.
     assert (LTX : x < length (k_nodes s)) by (eapply dnode_lt; eauto).
     rewrite dnode_put_node by auto. replace (Nat.eqb p x) with false by (symmetry; apply Nat.eqb_neq; auto). rewrite M1. cbn [bind].
     fold (bumpk m).
@@ -1616,7 +1747,7 @@ Qed.
 Definition kvk (s : kstate) (x : nat) : key * val := kv (sent s x).
 
 Lemma kforeach_loop_ok : forall T s C0 pre p n fuel stop calls acc nacc,
-  SGood s C0 -> HEADER :: C0 = pre ++ p :: T -> dnode s p = Ok n -> length T < fuel ->
+  SG s C0 -> HEADER :: C0 = pre ++ p :: T -> dnode s p = Ok n -> length T < fuel ->
   exists st' pos',
     k_foreach_loop kv_fixed fuel (put_node s p (bumpk n)) (Some p) stop calls acc nacc =
       Ok (st', pos', rev acc ++ map (kvk s) (takeL stop calls T), nacc) /\
@@ -1628,7 +1759,7 @@ Proof.
   - destruct fuel; [simpl in Hf; lia|]. cbn [k_foreach_loop]. rewrite (iter_next_k s C0 pre p (a :: T) n G E N).
     assert (AC : In a C0).
     { destruct pre as [|q pre']; simpl in E; inversion E; subst. left; auto. apply in_or_app. right. right. left. auto. }
-    destruct (sg_node _ _ G a AC) as [m [k [M1 [M2 [M3 _]]]]]. rewrite M1. cbn [bind takeL].
+    destruct (sg_node _ _ _ _ _ G a AC) as [m [k [M1 [M2 [M3 _]]]]]. rewrite M1. cbn [bind takeL].
     assert (KV : kvk s a = (nkey s a, sn_val m)). { unfold kvk. rewrite (sent_node _ _ _ _ M1 M2). rewrite (nkey_some _ _ _ _ M1 M2). reflexivity. }
     destruct (negb (Nat.eqb stop 0) && Nat.leb stop (S calls)) eqn:ST.
     + exists (put_node s a (bumpk m)), (Some a). split.
@@ -1636,15 +1767,16 @@ Proof.
       * unfold k_iter_free. simpl kx_iter_free. cbv iota. rewrite (node_deref_bumped_k _ a m); auto.
         rewrite put_node_twice, put_node_same by auto. reflexivity.
         rewrite dnode_put_node by (eapply dnode_lt; eauto). rewrite Nat.eqb_refl. reflexivity.
+        eapply RP_pos; eauto.
     + destruct (IHT s C0 (pre ++ [p]) a m fuel stop (S calls) ((nkey s a, sn_val m) :: acc) (nacc ++ [])) as [st' [pos' [F1 F2]]]; auto.
       rewrite <- app_assoc. exact E. simpl in Hf. lia.
       exists st', pos'. split; auto. rewrite F1. rewrite app_nil_r. simpl. rewrite KV. rewrite <- app_assoc. reflexivity.
 Qed.
 
-Lemma kstep_foreach : forall rc s C0 stop, SGood s C0 -> kstep_ok rc s C0 (Foreach stop) [].
+Lemma kstep_foreach : forall rc s C0 stop, SG s C0 -> kstep_ok rc s C0 (Foreach stop) [].
 Proof.
-  intros rc s C0 stop G. destruct rc as [[e1 e2] e3]. unfold kstep_ok, k_step, a_step. simpl. rewrite (sg_alive _ _ G). simpl.
-  unfold k_foreach, k_iter_create. destruct (sg_hdr _ _ G) as [h [H1 [H2 H3]]]. unfold HEADER in *. rewrite H1. cbn [bind].
+  intros rc s C0 stop G. destruct rc as [[e1 e2] e3]. unfold kstep_ok, k_step, a_step. simpl. rewrite (sg_alive _ _ _ _ _ G). simpl.
+  unfold k_foreach, k_iter_create. destruct (sg_hdr _ _ _ _ _ G) as [h [H1 [H2 H3]]]. unfold HEADER in *. rewrite H1. cbn [bind].
   fold (bumpk h).
   destruct (kforeach_loop_ok C0 s C0 [] 0 h (S (S (length (k_nodes s)))) stop 0 [] [] G eq_refl H1) as [st' [pos' [F1 F2]]].
   { generalize (sgood_len _ _ G). lia. }
@@ -1657,12 +1789,13 @@ Proof.
 Qed.
 
 (* ---------- any operation that is not an iterator operation; whole histories ---------- *)
-Theorem skip_step_ok : forall rc s C0 o orc, SGood s C0 -> is_iter_op o = false -> kstep_ok rc s C0 o orc.
+Theorem skip_step_ok_g : forall rc s C0 o orc, (forall id r, RP id r <-> r = 1) ->
+  SG s C0 -> is_iter_op o = false -> kstep_ok rc s C0 o orc.
 Proof.
-  intros rc s C0 o orc G H. destruct o; try discriminate.
-  - apply kstep_put; auto.
+  intros rc s C0 o orc R1 G H. destruct o; try discriminate.
+  - apply kstep_put; auto. apply (R1 (length (k_nodes s)) 1); auto.
   - apply (kstep_get rc s C0 k G).
-  - apply (kstep_rm rc s C0 k G).
+  - apply (kstep_rm rc s C0 k G). intros id r Q. apply (R1 id r); auto.
   - apply (kstep_count rc s C0 G).
   - apply (kstep_foreach rc s C0 stop G).
   - apply (kstep_notify_add rc s C0 k fn ev ud G).
@@ -1688,47 +1821,20 @@ Fixpoint ks_lockstep (rc : Z * Z * Z) (s : kstate) (C0 : list nat) (sp : sstate)
 
 Definition no_iter_ops_k (ops : list (op * list Z)) : bool := forallb (fun p => negb (is_iter_op (fst p))) ops.
 
-Theorem skip_c17_from : forall rc ops s C0 sp,
-  (SGood s C0 \/ k_alive s = false) -> Inv17 (kabs s C0) sp -> no_iter_ops_k ops = true -> ks_lockstep rc s C0 sp ops.
+Theorem skip_c17_from_g : forall rc ops s C0 sp, (forall id r, RP id r <-> r = 1) ->
+  (SG s C0 \/ k_alive s = false) -> Inv17 (kabs s C0) sp -> no_iter_ops_k ops = true -> ks_lockstep rc s C0 sp ops.
 Proof.
-  induction ops as [|[o orc] ops]; simpl; intros s C0 sp HG HI HN; auto.
+  induction ops as [|[o orc] ops]; simpl; intros s C0 sp R1 HG HI HN; auto.
   apply andb_true_iff in HN. destruct HN as [HN1 HN2]. apply negb_true_iff in HN1. simpl in HN1.
   destruct HG as [HG|HD].
-  - destruct (skip_step_ok rc s C0 o orc HG HN1) as [s' [C0' [x [x' [ns [E1 [E2 [E3 E4]]]]]]]]. rewrite E1.
+  - destruct (skip_step_ok_g rc s C0 o orc R1 HG HN1) as [s' [C0' [x [x' [ns [E1 [E2 [E3 E4]]]]]]]]. rewrite E1.
     generalize (step17 skip_before (rc4s rc) (kabs s C0) sp o HI HN1). rewrite E2.
     destruct (spec_step (fl_of (rc4s rc) (kabs s C0)) sp o) as [[sp' x''] ns'']. intros [Q1 [Q2 Q3]]. subst.
-    split; auto. split; auto. exists C0'. apply IHops; auto.
+    split; auto. split; auto. exists C0'. apply IHops; auto. destruct E4 as [[E4 _]|E4]; auto.
   - destruct (kdead_step rc s C0 o orc HD) as [E1 E2]. rewrite E1.
     generalize (step17 skip_before (rc4s rc) (kabs s C0) sp o HI HN1). rewrite E2.
     destruct (spec_step (fl_of (rc4s rc) (kabs s C0)) sp o) as [[sp' x''] ns'']. intros [Q1 [Q2 Q3]]. subst.
     split; auto. split; auto. exists C0. apply IHops; auto.
-Qed.
-
-Lemma sgood_create : SGood k_create [] /\ kabs k_create [] = r_init.
-Proof.
-  split.
-  - constructor.
-    + eexists. split; [reflexivity|]. simpl. auto.
-    + intros id [].
-    + constructor.
-      * intros id n [Hid|[]] N. subst id. inversion N; subst. simpl. eexists. split; [reflexivity|]. reflexivity.
-      * intros x y n m [Hx|[]] [Hy|[]]. congruence.
-    + constructor.
-    + intros l Hl. simpl. unfold fwd. simpl. unfold LEVEL_MAX in Hl.
-      do 9 (destruct l as [|l]; [reflexivity|]). lia.
-    + simpl. lia.
-    + reflexivity.
-    + reflexivity.
-    + reflexivity.
-    + intros h Q. inversion Q; subst. simpl. lia.
-  - reflexivity.
-Qed.
-
-(* C17 for the pointer-level skiplist model: for every history of put/get/rm/count/foreach/notify/destroy and EVERY
-   sequence of random() answers, no operation fails and outputs and notifier calls equal the specification's *)
-Theorem skip_c17 : forall rc ops, no_iter_ops_k ops = true -> ks_lockstep rc k_create [] s_init ops.
-Proof.
-  intros. destruct sgood_create as [G A]. apply skip_c17_from; auto. rewrite A. apply inv17_init.
 Qed.
 
 (* the traversal order used as the specification's order is ascending by key *)
@@ -1740,9 +1846,57 @@ Proof.
   eapply Forall_forall in H; eauto. unfold klt in H. unfold kv. simpl. rewrite !sent_key. auto.
 Qed.
 
-Theorem skip_traversal_ascending : forall s C0, SGood s C0 ->
+Theorem skip_traversal_ascending_g : forall s C0, SG s C0 ->
   StronglySorted (fun a b => key_ltb (fst a) (fst b) = true) (live_kv (kabs s C0)).
-Proof. intros. unfold live_kv. rewrite live_kabs. simpl. apply ss_kv. apply (sg_sorted _ _ H). Qed.
+Proof. intros. unfold live_kv. rewrite live_kabs. simpl. apply ss_kv. apply (sg_sorted _ _ _ _ _ H). Qed.
+
+End RPS.
+
+(* ---------- the C17 instance: no iterator is open, every reference count is 1, nothing is kept after removal ---------- *)
+Definition RP1 : nat -> nat -> Prop := fun _ r => r = 1.
+Definition ZPT : nat -> snode -> Prop := fun _ _ => True.
+Definition SGood17 (s : kstate) (C0 : list nat) : Prop := SGood RP1 ZPT [] s C0.
+Definition kstep_ok17 := kstep_ok RP1 ZPT [].
+
+Lemma rp1_one : forall id r, RP1 id r <-> r = 1.
+Proof. intros. unfold RP1. tauto. Qed.
+Lemma rp1_pos : forall id r, RP1 id r -> 1 <= r.
+Proof. unfold RP1. intros. lia. Qed.
+
+Theorem skip_step_ok : forall rc s C0 o orc, SGood17 s C0 -> is_iter_op o = false -> kstep_ok17 rc s C0 o orc.
+Proof. intros. apply skip_step_ok_g; auto. apply rp1_pos. apply rp1_one. Qed.
+
+Lemma sgood_create_g : forall (RP : nat -> nat -> Prop) (ZP : nat -> snode -> Prop), RP HEADER 1 -> SGood RP ZP [] k_create [].
+Proof.
+  intros RP ZP R. constructor.
+  + eexists. split; [reflexivity|]. simpl. auto.
+  + intros id [].
+  + constructor.
+    * intros id n [Hid|[]] N. subst id. inversion N; subst. simpl. eexists. split; [reflexivity|]. reflexivity.
+    * intros x y n m [Hx|[]] [Hy|[]]. congruence.
+  + intros z [].
+  + constructor.
+  + intros l Hl. simpl. unfold fwd. simpl. unfold LEVEL_MAX in Hl.
+    do 9 (destruct l as [|l]; [reflexivity|]). lia.
+  + simpl. lia.
+  + reflexivity.
+  + reflexivity.
+  + intros h Q. inversion Q; subst. simpl. lia.
+Qed.
+
+Lemma sgood_create : SGood17 k_create [] /\ kabs k_create [] = r_init.
+Proof. split. apply sgood_create_g. reflexivity. reflexivity. Qed.
+
+(* C17 for the pointer-level skiplist model: for every history of put/get/rm/count/foreach/notify/destroy and EVERY
+   sequence of random() answers, no operation fails and outputs and notifier calls equal the specification's *)
+Theorem skip_c17 : forall rc ops, no_iter_ops_k ops = true -> ks_lockstep rc k_create [] s_init ops.
+Proof.
+  intros. destruct sgood_create as [G A]. apply (skip_c17_from_g RP1 ZPT [] rp1_pos rc ops k_create [] s_init rp1_one); auto. rewrite A. apply inv17_init.
+Qed.
+
+Theorem skip_traversal_ascending : forall s C0, SGood17 s C0 ->
+  StronglySorted (fun a b => key_ltb (fst a) (fst b) = true) (live_kv (kabs s C0)).
+Proof. intros. eapply skip_traversal_ascending_g; eauto. Qed.
 
 Require Import Verif.MapSkipProofs.
 
